@@ -3,8 +3,12 @@ C12 — the inventory: helper lemmas about the analyser model (`StubGen.Model.An
 
 * `k12_Fr`      : frame predicate "does not change `api` and `stack`" for the read-only parts
 * `k12_Step`    : the abstract transitions of the declaration stack / the tables (one per `enter*`/`leave*`)
-* `k12_walk*`   : every successful walk is a sequence of abstract steps
-* invariants over `k12_Steps`: duplicate-free tables, id forms, resolved references, recorded functions
+* `k12_walk*`   : every successful walk is a sequence of abstract steps; the walker visits class definitions directly
+                  below a module or a class only (`k12_ModeTop`), so every class that is left is stored (`popClsM`/`popClsC`)
+* invariants over `k12_Steps`: duplicate-free tables, id forms (attributes: `<id of a class of the table>/<name>`,
+  `k12_Owned`), resolved references, recorded functions, provenance of parameters, results (`k12_Steps_parts`) and
+  attributes (`k12_Listed`)
+* the transitions carry two event lists: the functions written to `functions` and the classes written to `classes`
 -/
 import StubGen.Model.Analyze
 import StubGen.Proofs.TypeText
@@ -246,9 +250,11 @@ theorem k12_parseAttributes_one_fr (env : AEnv) (un : Option MType) (isStatic : 
       match attributeAlreadyDefined s name with
       | .error e => throwV e
       | .ok true => pure []
-      | .ok false => do
-        let a ← createAttributeV env isMember name fullname isVar var un isStatic
-        pure [a] : V (List Attribute)) := by
+      | .ok false =>
+        if isMember && !isVar then pure []
+        else do
+          let a ← createAttributeV env isMember name fullname isVar var un isStatic
+          pure [a] : V (List Attribute)) := by
   k12_fr [k12_createAttributeV_fr]
 
 theorem k12_parseAttributes_go_fr (one : Bool → String → String → Bool → Option VarInfo → V (List Attribute))
@@ -650,9 +656,30 @@ theorem throw_bind {P : List Frame → β → Prop} {e : PyErr} {f : α → V β
 
 end k12_OutS
 
-/-- the id `_create_attribute` computes on the stack `stk` -/
+/-- the id of the class that owns the attributes assigned at this point of the walk: the class on top of the stack,
+    or the class directly below the function on top of the stack -/
+def k12_ownerId : List Frame → Option String
+  | .fn _ :: .cls c :: _ => some c.id
+  | .cls c :: _ => some c.id
+  | _ => none
+
+/-- the id `_create_attribute` computes on the stack `stk`: `<id of the owning class>/<name>` -/
 def k12_AttrOk (stk : List Frame) (a : Attribute) : Prop :=
-  a.id = pyReplace (joinWith "/" (k12_segs stk ++ [a.name])) "__init__/" ""
+  ∃ o, k12_ownerId stk = some o ∧ a.id = o ++ "/" ++ a.name
+
+theorem k12_parentId_ok {stk : List Frame} {s s' : VSt} {pid : String}
+    (h : (match stk with
+      | .fn f :: .cls c :: _ => if f.name == "__init__" then pure c.id else throwV .assertionError
+      | .cls c :: _ => pure c.id
+      | _ => throwV .assertionError : V String) s = .ok (pid, s')) : k12_ownerId stk = some pid ∧ s' = s := by
+  split at h
+  · split at h
+    · obtain ⟨rfl, e⟩ := k12_pure_ok h
+      exact ⟨rfl, e⟩
+    · exact (k12_throw_ok h).elim
+  · obtain ⟨rfl, e⟩ := k12_pure_ok h
+    exact ⟨rfl, e⟩
+  · exact (k12_throw_ok h).elim
 
 theorem k12_createAttributeV_out (env : AEnv) (isMember : Bool) (name fullname : String) (isVar : Bool) (var : Option VarInfo)
     (un : Option MType) (isStatic : Bool) :
@@ -669,15 +696,14 @@ theorem k12_createAttributeV_out (env : AEnv) (isMember : Bool) (name fullname :
   have e1 := (by k12_fr [k12_toAbstract_fr] : k12_Fr _).run _ _ _ h1
   have hh := k12_get_bind_ok h; clear h; have h := hh; clear hh
   have hh := k12_bind_ok h; clear h; obtain ⟨pid, t2, h2, h⟩ := hh
-  have e2 := (by k12_fr [] : k12_Fr _).run _ _ _ h2
+  have e2 := k12_parentId_ok h2
   have hh := k12_bind_ok h; clear h; obtain ⟨doc, t3, h3, h⟩ := hh
-  have e3 := (k12_attributeDocumentation_fr env pid name).run _ _ _ h3
   have hh := k12_get_bind_ok h; clear h; have h := hh; clear hh
   have hh := k12_bind_ok h; clear h; obtain ⟨pub, t4, h4, h⟩ := hh
   obtain ⟨rfl, _⟩ := k12_pure_ok h
-  unfold k12_AttrOk
-  dsimp only
-  rw [k12_createId_eq, e3.2, e2.2, e1.2]
+  refine ⟨pid, ?_, rfl⟩
+  rw [← e1.2]
+  exact e2.1
 
 /-- what `enter_assignmentstmt` guarantees about a collected item -/
 def k12_ItemOk (stk : List Frame) : AssignItem → Prop
@@ -714,19 +740,23 @@ theorem k12_parseAttributes_one_out (env : AEnv) (un : Option MType) (isStatic :
       match attributeAlreadyDefined s name with
       | .error e => throwV e
       | .ok true => pure []
-      | .ok false => do
-        let a ← createAttributeV env isMember name fullname isVar var un isStatic
-        pure [a] : V (List Attribute)) k12_AttrsOk := by
+      | .ok false =>
+        if isMember && !isVar then pure []
+        else do
+          let a ← createAttributeV env isMember name fullname isVar var un isStatic
+          pure [a] : V (List Attribute)) k12_AttrsOk := by
   refine k12_OutS.get_bind (fun s0 => ?_)
   split
   · exact k12_OutS.throw _
   · exact k12_OutS.pure (fun stk _ => k12_AttrsOk.nil stk)
-  · refine k12_OutS.bind' (k12_createAttributeV_fr ..) (k12_createAttributeV_out ..) (fun a => ?_)
-    refine k12_OutS.pure ?_
-    intro stk ha _
-    refine ⟨fun x hx => ?_⟩
-    rw [List.mem_singleton.1 hx]
-    exact ha
+  · split
+    · exact k12_OutS.pure (fun stk _ => k12_AttrsOk.nil stk)
+    · refine k12_OutS.bind' (k12_createAttributeV_fr ..) (k12_createAttributeV_out ..) (fun a => ?_)
+      refine k12_OutS.pure ?_
+      intro stk ha _
+      refine ⟨fun x hx => ?_⟩
+      rw [List.mem_singleton.1 hx]
+      exact ha
 
 theorem k12_parseAttributes_go_out (one : Bool → String → String → Bool → Option VarInfo → V (List Attribute))
     (h1 : ∀ a b c d e, k12_Fr (one a b c d e)) (h2 : ∀ a b c d e, k12_OutS (one a b c d e) k12_AttrsOk) :
@@ -837,81 +867,103 @@ def k12_fnParent (f : Function) : Frame → Frame
   | .cls c => if f.name == "__init__" then .cls { c with ctor := some f } else .cls { c with methods := c.methods ++ [f] }
   | other => other
 
-/-- one transition; the `List Function` is the list of functions written to the `functions` table -/
-inductive k12_Step : AnaResult → List Frame → List Function → AnaResult → List Frame → Prop
+/-- one transition; the `List Function` is the list of functions written to the `functions` table, the `List Class`
+    the list of classes written to the `classes` table -/
+inductive k12_Step : AnaResult → List Frame → List Function → List Class → AnaResult → List Frame → Prop
   | reexp (api : AnaResult) (stk : List Frame) (rm : List (String × List ModRef)) :
-      k12_Step api stk [] { api with reexportMap := rm } stk
+      k12_Step api stk [] [] { api with reexportMap := rm } stk
   | pushModule (api : AnaResult) (stk : List Frame) (m : Module) :
-      m.classes = [] → m.functions = [] → m.enums = [] → k12_Step api stk [] api (.module m :: stk)
+      m.classes = [] → m.functions = [] → m.enums = [] → k12_Step api stk [] [] api (.module m :: stk)
   | popModule (api : AnaResult) (m : Module) (rest : List Frame) :
-      k12_Step api (.module m :: rest) [] { api with modules := dictSet (·.id) api.modules m } rest
+      k12_Step api (.module m :: rest) [] [] { api with modules := dictSet (·.id) api.modules m } rest
   | pushFn (api : AnaResult) (stk : List Frame) (fn : Function) :
-      k12_FnOk stk fn → stk ≠ [] → k12_Step api stk [] api (.fn fn :: stk)
+      k12_FnOk stk fn → stk ≠ [] → k12_Step api stk [] [] api (.fn fn :: stk)
   | popFn (api : AnaResult) (f : Function) (parent : Frame) (up : List Frame) :
-      k12_Step api (.fn f :: parent :: up) [f] (k12_apiAddFn api f) (k12_fnParent f parent :: up)
+      k12_Step api (.fn f :: parent :: up) [f] [] (k12_apiAddFn api f) (k12_fnParent f parent :: up)
   | pushCls (api : AnaResult) (stk : List Frame) (c : Class) :
-      k12_ClsOk stk c → stk ≠ [] → k12_Step api stk [] api (.cls c :: stk)
+      k12_ClsOk stk c → stk ≠ [] → k12_Step api stk [] [] api (.cls c :: stk)
   | popClsM (api : AnaResult) (c : Class) (m : Module) (up : List Frame) :
-      k12_Step api (.cls c :: .module m :: up) [] { api with classes := dictSet (·.id) api.classes c }
+      k12_Step api (.cls c :: .module m :: up) [] [c] { api with classes := dictSet (·.id) api.classes c }
         (.module { m with classes := m.classes ++ [c] } :: up)
   | popClsC (api : AnaResult) (c p : Class) (up : List Frame) :
-      k12_Step api (.cls c :: .cls p :: up) [] { api with classes := dictSet (·.id) api.classes c }
+      k12_Step api (.cls c :: .cls p :: up) [] [c] { api with classes := dictSet (·.id) api.classes c }
         (.cls { p with classes := p.classes ++ [c] } :: up)
   | pushEnum (api : AnaResult) (stk : List Frame) (e : Enum) :
-      k12_EnumOk stk e → stk ≠ [] → k12_Step api stk [] api (.enum e :: stk)
+      k12_EnumOk stk e → stk ≠ [] → k12_Step api stk [] [] api (.enum e :: stk)
   | popEnumM (api : AnaResult) (e : Enum) (m : Module) (up : List Frame) :
-      k12_Step api (.enum e :: .module m :: up) [] { api with enums := dictSet (·.id) api.enums e }
+      k12_Step api (.enum e :: .module m :: up) [] [] { api with enums := dictSet (·.id) api.enums e }
         (.module { m with enums := m.enums ++ [e] } :: up)
-  | drop (api : AnaResult) (fr : Frame) (rest : List Frame) : k12_Step api (fr :: rest) [] api rest
+  | dropEnum (api : AnaResult) (en : Enum) (rest : List Frame) : k12_Step api (.enum en :: rest) [] [] api rest
   | addAttrF (api : AnaResult) (f : Function) (c : Class) (up : List Frame) (a : Attribute) :
-      k12_AttrOk (.fn f :: .cls c :: up) a →
-      k12_Step api (.fn f :: .cls c :: up) [] { api with attributes := dictSet (·.id) api.attributes a }
+      a.id = c.id ++ "/" ++ a.name →
+      k12_Step api (.fn f :: .cls c :: up) [] [] { api with attributes := dictSet (·.id) api.attributes a }
         (.fn f :: .cls { c with attributes := c.attributes ++ [a] } :: up)
   | addAttrC (api : AnaResult) (c : Class) (up : List Frame) (a : Attribute) :
-      k12_AttrOk (.cls c :: up) a →
-      k12_Step api (.cls c :: up) [] { api with attributes := dictSet (·.id) api.attributes a }
+      a.id = c.id ++ "/" ++ a.name →
+      k12_Step api (.cls c :: up) [] [] { api with attributes := dictSet (·.id) api.attributes a }
         (.cls { c with attributes := c.attributes ++ [a] } :: up)
   | addInst (api : AnaResult) (en : Enum) (up : List Frame) (e : EnumInstance) :
       e.id = en.id ++ "/" ++ e.name →
-      k12_Step api (.enum en :: up) [] { api with enumInstances := dictSet (·.id) api.enumInstances e }
+      k12_Step api (.enum en :: up) [] [] { api with enumInstances := dictSet (·.id) api.enumInstances e }
         (.enum { en with instances := en.instances ++ [e] } :: up)
 
-inductive k12_Steps : AnaResult → List Frame → List Function → AnaResult → List Frame → Prop
-  | refl (api : AnaResult) (stk : List Frame) : k12_Steps api stk [] api stk
-  | cons {a : AnaResult} {s : List Frame} {e1 : List Function} {a1 : AnaResult} {s1 : List Frame} {e2 : List Function}
-      {a2 : AnaResult} {s2 : List Frame} {e : List Function} :
-      k12_Step a s e1 a1 s1 → k12_Steps a1 s1 e2 a2 s2 → e = e1 ++ e2 → k12_Steps a s e a2 s2
+inductive k12_Steps : AnaResult → List Frame → List Function → List Class → AnaResult → List Frame → Prop
+  | refl (api : AnaResult) (stk : List Frame) : k12_Steps api stk [] [] api stk
+  | cons {a : AnaResult} {s : List Frame} {e1 : List Function} {c1 : List Class} {a1 : AnaResult} {s1 : List Frame}
+      {e2 : List Function} {c2 : List Class} {a2 : AnaResult} {s2 : List Frame} {e : List Function} {c : List Class} :
+      k12_Step a s e1 c1 a1 s1 → k12_Steps a1 s1 e2 c2 a2 s2 → e = e1 ++ e2 → c = c1 ++ c2 → k12_Steps a s e c a2 s2
 
-theorem k12_Steps.one {a : AnaResult} {s : List Frame} {e : List Function} {a1 : AnaResult} {s1 : List Frame}
-    (h : k12_Step a s e a1 s1) : k12_Steps a s e a1 s1 :=
-  .cons h (.refl _ _) (List.append_nil e).symm
+theorem k12_Steps.one {a : AnaResult} {s : List Frame} {e : List Function} {c : List Class} {a1 : AnaResult} {s1 : List Frame}
+    (h : k12_Step a s e c a1 s1) : k12_Steps a s e c a1 s1 :=
+  .cons h (.refl _ _) (List.append_nil e).symm (List.append_nil c).symm
 
-theorem k12_Steps.trans {a : AnaResult} {s : List Frame} {e1 : List Function} {a1 : AnaResult} {s1 : List Frame}
-    {e2 : List Function} {a2 : AnaResult} {s2 : List Frame}
-    (h1 : k12_Steps a s e1 a1 s1) (h2 : k12_Steps a1 s1 e2 a2 s2) : ∀ e, e = e1 ++ e2 → k12_Steps a s e a2 s2 := by
+theorem k12_Steps.trans {a : AnaResult} {s : List Frame} {e1 : List Function} {c1 : List Class} {a1 : AnaResult}
+    {s1 : List Frame} {e2 : List Function} {c2 : List Class} {a2 : AnaResult} {s2 : List Frame}
+    (h1 : k12_Steps a s e1 c1 a1 s1) (h2 : k12_Steps a1 s1 e2 c2 a2 s2) :
+    ∀ e c, e = e1 ++ e2 → c = c1 ++ c2 → k12_Steps a s e c a2 s2 := by
   induction h1 with
-  | refl => intro e he; rw [he, List.nil_append]; exact h2
-  | cons hs _ he1 ih =>
-    intro e he
-    refine .cons hs (ih h2 _ rfl) ?_
-    rw [he, he1, List.append_assoc]
+  | refl => intro e c he hc; rw [he, hc, List.nil_append, List.nil_append]; exact h2
+  | cons hs _ he1 hc1 ih =>
+    intro e c he hc
+    refine .cons hs (ih h2 _ _ rfl rfl) ?_ ?_
+    · rw [he, he1, List.append_assoc]
+    · rw [hc, hc1, List.append_assoc]
 
 theorem k12_Steps.trans0 {a : AnaResult} {s : List Frame} {a1 : AnaResult} {s1 : List Frame}
-    {e2 : List Function} {a2 : AnaResult} {s2 : List Frame}
-    (h1 : k12_Steps a s [] a1 s1) (h2 : k12_Steps a1 s1 e2 a2 s2) : k12_Steps a s e2 a2 s2 :=
-  h1.trans h2 _ (List.nil_append _).symm
+    {e2 : List Function} {c2 : List Class} {a2 : AnaResult} {s2 : List Frame}
+    (h1 : k12_Steps a s [] [] a1 s1) (h2 : k12_Steps a1 s1 e2 c2 a2 s2) : k12_Steps a s e2 c2 a2 s2 :=
+  h1.trans h2 _ _ (List.nil_append _).symm (List.nil_append _).symm
 
 theorem k12_Steps.trans0' {a : AnaResult} {s : List Frame} {a1 : AnaResult} {s1 : List Frame}
-    {e1 : List Function} {a2 : AnaResult} {s2 : List Frame}
-    (h1 : k12_Steps a s e1 a1 s1) (h2 : k12_Steps a1 s1 [] a2 s2) : k12_Steps a s e1 a2 s2 :=
-  h1.trans h2 _ (List.append_nil _).symm
+    {e1 : List Function} {c1 : List Class} {a2 : AnaResult} {s2 : List Frame}
+    (h1 : k12_Steps a s e1 c1 a1 s1) (h2 : k12_Steps a1 s1 [] [] a2 s2) : k12_Steps a s e1 c1 a2 s2 :=
+  h1.trans h2 _ _ (List.append_nil _).symm (List.append_nil _).symm
 
-/-- the segment list of the frames (what `k12_segs` is computed from) -/
-def k12_shape (stk : List Frame) : List (Option String) := stk.map frameSegment
+/-- the kind of a frame: 0 module, 1 class, 2 function, 3 enum, 4 assignment -/
+def k12_kind : Frame → Nat
+  | .module _ => 0
+  | .cls _ => 1
+  | .fn _ => 2
+  | .enum _ => 3
+  | .assigns _ => 4
+
+/-- the id of the declaration of a frame -/
+def k12_frameId : Frame → String
+  | .module m => m.id
+  | .cls c => c.id
+  | .fn f => f.id
+  | .enum e => e.id
+  | .assigns _ => ""
+
+/-- kind, id segment and id of a frame -/
+def k12_frameSig (fr : Frame) : Nat × Option String × String := (k12_kind fr, frameSegment fr, k12_frameId fr)
+
+/-- the kinds, segments and ids of the frames (`k12_segs` is computed from the segments) -/
+def k12_shape (stk : List Frame) : List (Nat × Option String × String) := stk.map k12_frameSig
 
 theorem k12_segs_eq_of_shape {stk stk' : List Frame} (h : k12_shape stk = k12_shape stk') : k12_segs stk = k12_segs stk' := by
   unfold k12_segs
-  have e : ∀ l : List Frame, l.reverse.filterMap frameSegment = ((l.map frameSegment).reverse).filterMap id := by
+  have e : ∀ l : List Frame, l.reverse.filterMap frameSegment = ((l.map k12_frameSig).reverse).filterMap (·.2.1) := by
     intro l
     rw [← List.map_reverse, List.filterMap_map]
     rfl
@@ -919,12 +971,34 @@ theorem k12_segs_eq_of_shape {stk stk' : List Frame} (h : k12_shape stk = k12_sh
   unfold k12_shape at h
   rw [h]
 
-theorem k12_fnParent_segment (f : Function) (p : Frame) : frameSegment (k12_fnParent f p) = frameSegment p := by
+theorem k12_fnParent_sig (f : Function) (p : Frame) : k12_frameSig (k12_fnParent f p) = k12_frameSig p := by
   cases p with
   | cls c =>
-    show frameSegment (if f.name == "__init__" then _ else _) = _
+    show k12_frameSig (if f.name == "__init__" then _ else _) = _
     split <;> rfl
   | _ => rfl
+
+theorem k12_fnParent_segment (f : Function) (p : Frame) : frameSegment (k12_fnParent f p) = frameSegment p :=
+  congrArg (·.2.1) (k12_fnParent_sig f p)
+
+/-- the kind of the top frame -/
+def k12_topKind (stk : List Frame) : Option Nat := (k12_shape stk).head?.map (·.1)
+
+theorem k12_topKind_of_shape {stk stk' : List Frame} (h : k12_shape stk' = k12_shape stk) : k12_topKind stk' = k12_topKind stk := by
+  unfold k12_topKind; rw [h]
+
+/-- a class definition is visited below a module or a class only -/
+def k12_ParentOk (stk : List Frame) : Prop := k12_topKind stk = some 0 ∨ k12_topKind stk = some 1
+
+theorem k12_ParentOk_cases {stk : List Frame} (h : k12_ParentOk stk) :
+    (∃ m up, stk = .module m :: up) ∨ (∃ p up, stk = .cls p :: up) := by
+  cases stk with
+  | nil => rcases h with h | h <;> simp [k12_topKind, k12_shape] at h
+  | cons fr up =>
+    cases fr with
+    | module m => exact Or.inl ⟨m, up, rfl⟩
+    | cls p => exact Or.inr ⟨p, up, rfl⟩
+    | _ => rcases h with h | h <;> simp [k12_topKind, k12_shape, k12_frameSig, k12_kind] at h
 
 /-! ### the `leave_*` functions as transitions -/
 
@@ -953,15 +1027,16 @@ theorem k12_leaveFuncdef_ok {s s' : VSt} {u : Unit} (h : leaveFuncdef s = .ok (u
           unfold k12_shape
           simp only [List.map_cons]
           congr 1
-          exact k12_fnParent_segment f parent
+          exact k12_fnParent_sig f parent
         · rw [hs']; rfl
         · rw [hs']; rfl
     | _ => exact (k12_throw_ok h).elim
 
 
-theorem k12_leaveClassdef_ok {s s' : VSt} {u : Unit} (h : leaveClassdef s = .ok (u, s')) :
+theorem k12_leaveClassdef_ok {s s' : VSt} {u : Unit} (h : leaveClassdef s = .ok (u, s'))
+    (hk : ∀ c rest, s.stack = .cls c :: rest → k12_ParentOk rest) :
     ∃ c rest, s.stack = .cls c :: rest ∧ k12_shape s'.stack = k12_shape rest ∧
-      k12_Step s.api s.stack [] s'.api s'.stack := by
+      k12_Step s.api s.stack [] [c] s'.api s'.stack := by
   unfold leaveClassdef at h
   have hh := k12_get_bind_ok h; clear h; have h := hh; clear hh
   cases hstk : s.stack with
@@ -972,21 +1047,18 @@ theorem k12_leaveClassdef_ok {s s' : VSt} {u : Unit} (h : leaveClassdef s = .ok 
     | cls c =>
       dsimp only at h
       refine ⟨c, rest, rfl, ?_⟩
-      split at h
+      rcases k12_ParentOk_cases (hk c rest hstk) with ⟨m, up, rfl⟩ | ⟨p, up, rfl⟩
       · have hs' := k12_set_ok h
         rw [hs']
         exact ⟨rfl, k12_Step.popClsM _ _ _ _⟩
       · have hs' := k12_set_ok h
         rw [hs']
         exact ⟨rfl, k12_Step.popClsC _ _ _ _⟩
-      · have hs' := k12_set_ok h
-        rw [hs']
-        exact ⟨rfl, k12_Step.drop _ _ _⟩
     | _ => exact (k12_throw_ok h).elim
 
 theorem k12_leaveEnumdef_ok {s s' : VSt} {u : Unit} (h : leaveEnumdef s = .ok (u, s')) :
     ∃ e rest, s.stack = .enum e :: rest ∧ k12_shape s'.stack = k12_shape rest ∧
-      k12_Step s.api s.stack [] s'.api s'.stack := by
+      k12_Step s.api s.stack [] [] s'.api s'.stack := by
   unfold leaveEnumdef at h
   have hh := k12_get_bind_ok h; clear h; have h := hh; clear hh
   cases hstk : s.stack with
@@ -1003,12 +1075,12 @@ theorem k12_leaveEnumdef_ok {s s' : VSt} {u : Unit} (h : leaveEnumdef s = .ok (u
         exact ⟨rfl, k12_Step.popEnumM _ _ _ _⟩
       · have hs' := k12_set_ok h
         rw [hs']
-        exact ⟨rfl, k12_Step.drop _ _ _⟩
+        exact ⟨rfl, k12_Step.dropEnum _ _ _⟩
     | _ => exact (k12_throw_ok h).elim
 
 theorem k12_leaveModuledef_ok {s s' : VSt} {u : Unit} (h : leaveModuledef s = .ok (u, s')) :
     ∃ m rest, s.stack = .module m :: rest ∧ s'.stack = rest ∧
-      k12_Step s.api s.stack [] s'.api s'.stack := by
+      k12_Step s.api s.stack [] [] s'.api s'.stack := by
   unfold leaveModuledef at h
   have hh := k12_get_bind_ok h; clear h; have h := hh; clear hh
   cases hstk : s.stack with
@@ -1031,18 +1103,31 @@ theorem k12_foldl_inv_mem {α β : Type} (P : β → Prop) (f : β → α → β
     k12_foldl_inv_mem P f l (f b a) (fun b' a' ha' => hf b' a' (List.mem_cons_of_mem _ ha'))
       (hf b a List.mem_cons_self h)
 
-theorem k12_AttrOk_of_shape {stk stk' : List Frame} {a : Attribute} (h : k12_shape stk' = k12_shape stk)
+theorem k12_AttrOk_of_owner {stk stk' : List Frame} {a : Attribute} (h : k12_ownerId stk' = k12_ownerId stk)
     (ha : k12_AttrOk stk a) : k12_AttrOk stk' a := by
   unfold k12_AttrOk at ha ⊢
-  rw [k12_segs_eq_of_shape h]
+  rw [h]
   exact ha
+
+theorem k12_AttrOk_fn {f : Function} {c : Class} {up : List Frame} {a : Attribute}
+    (h : k12_AttrOk (.fn f :: .cls c :: up) a) : a.id = c.id ++ "/" ++ a.name := by
+  obtain ⟨o, ho, hid⟩ := h
+  have : c.id = o := Option.some.inj ho
+  rw [this]; exact hid
+
+theorem k12_AttrOk_cls {c : Class} {up : List Frame} {a : Attribute}
+    (h : k12_AttrOk (.cls c :: up) a) : a.id = c.id ++ "/" ++ a.name := by
+  obtain ⟨o, ho, hid⟩ := h
+  have : c.id = o := Option.some.inj ho
+  rw [this]; exact hid
 
 /-- the invariant of the loop in `leave_assignmentstmt` -/
 structure k12_AssignInv (api0 : AnaResult) (frames0 : List Frame) (st : AnaResult × List Frame) : Prop where
-  steps : k12_Steps api0 frames0 [] st.1 st.2
+  steps : k12_Steps api0 frames0 [] [] st.1 st.2
   shape : k12_shape st.2 = k12_shape frames0
   top : ∀ en rest, st.2 = .enum en :: rest → ∃ en0 rest0, frames0 = .enum en0 :: rest0 ∧ en0.id = en.id
   topFn : ∀ f rest, frames0 = .fn f :: rest → ∃ rest', st.2 = .fn f :: rest'
+  owner : k12_ownerId st.2 = k12_ownerId frames0
 
 /-- facts about the final state -/
 structure k12_Ends {α : Type} (x : V α) (Q : VSt → Prop) : Prop where
@@ -1064,7 +1149,7 @@ theorem k12_Ends.set {Q : VSt → Prop} {t : VSt} (h : Q t) : k12_Ends (set t : 
 
 theorem k12_leaveAssignment_ok {s s' : VSt} {u : Unit} (h : leaveAssignment s = .ok (u, s')) :
     ∃ items rest, s.stack = .assigns items :: rest ∧
-      (k12_ItemsOk rest items → k12_Steps s.api rest [] s'.api s'.stack ∧ k12_shape s'.stack = k12_shape rest ∧
+      (k12_ItemsOk rest items → k12_Steps s.api rest [] [] s'.api s'.stack ∧ k12_shape s'.stack = k12_shape rest ∧
         ∀ f r, rest = .fn f :: r → ∃ r', s'.stack = .fn f :: r') := by
   unfold leaveAssignment at h
   have hh := k12_get_bind_ok h; clear h; have h := hh; clear hh
@@ -1083,7 +1168,7 @@ theorem k12_leaveAssignment_ok {s s' : VSt} {u : Unit} (h : leaveAssignment s = 
         exact ⟨k12_Steps.refl _ _, rfl, fun f r he => by simp at he⟩
       | cons parent up =>
         dsimp only at h
-        refine (?_ : k12_Ends _ (fun s' => k12_Steps s.api (parent :: up) [] s'.api s'.stack ∧
+        refine (?_ : k12_Ends _ (fun s' => k12_Steps s.api (parent :: up) [] [] s'.api s'.stack ∧
           k12_shape s'.stack = k12_shape (parent :: up) ∧
           ∀ f r, parent :: up = .fn f :: r → ∃ r', s'.stack = .fn f :: r')).run _ _ _ h
         repeat' (first
@@ -1098,17 +1183,17 @@ theorem k12_leaveAssignment_ok {s s' : VSt} {u : Unit} (h : leaveAssignment s = 
           suffices key : k12_AssignInv s.api _ (List.foldl _ _ items) from
             ⟨key.steps, key.shape, key.topFn⟩
           refine k12_foldl_inv_mem (k12_AssignInv _ _) _ items _ ?_
-            ⟨k12_Steps.refl _ _, rfl, fun en rest he => ⟨en, rest, he, rfl⟩, fun f rest he => ⟨rest, he⟩⟩
+            ⟨k12_Steps.refl _ _, rfl, fun en rest he => ⟨en, rest, he, rfl⟩, fun f rest he => ⟨rest, he⟩, rfl⟩
           · intro st it hit hst
             obtain ⟨api, frames⟩ := st
             have hitem := hok.all it hit
             cases it with
             | attr a =>
               dsimp only
-              have ha : k12_AttrOk frames a := k12_AttrOk_of_shape hst.shape hitem
+              have ha : k12_AttrOk frames a := k12_AttrOk_of_owner hst.owner hitem
               split
               · rename_i f c up'
-                refine ⟨hst.steps.trans0' (k12_Steps.one (k12_Step.addAttrF _ _ _ _ _ ha)), ?_, ?_, ?_⟩
+                refine ⟨hst.steps.trans0' (k12_Steps.one (k12_Step.addAttrF _ _ _ _ _ (k12_AttrOk_fn ha))), ?_, ?_, ?_, ?_⟩
                 · rw [← hst.shape]; rfl
                 · intro en rest he
                   simp at he
@@ -1116,14 +1201,16 @@ theorem k12_leaveAssignment_ok {s s' : VSt} {u : Unit} (h : leaveAssignment s = 
                   obtain ⟨r', hr'⟩ := hst.topFn f0 rest0 he
                   simp only [List.cons.injEq, Frame.fn.injEq] at hr'
                   exact ⟨_, by rw [hr'.1]⟩
+                · rw [← hst.owner]; rfl
               · rename_i c up'
-                refine ⟨hst.steps.trans0' (k12_Steps.one (k12_Step.addAttrC _ _ _ _ ha)), ?_, ?_, ?_⟩
+                refine ⟨hst.steps.trans0' (k12_Steps.one (k12_Step.addAttrC _ _ _ _ (k12_AttrOk_cls ha))), ?_, ?_, ?_, ?_⟩
                 · rw [← hst.shape]; rfl
                 · intro en rest he
                   simp at he
                 · intro f0 rest0 he
                   obtain ⟨r', hr'⟩ := hst.topFn f0 rest0 he
                   simp at hr'
+                · rw [← hst.owner]; rfl
               · exact hst
             | inst e =>
               dsimp only
@@ -1133,7 +1220,7 @@ theorem k12_leaveAssignment_ok {s s' : VSt} {u : Unit} (h : leaveAssignment s = 
                 have he : e.id = en.id ++ "/" ++ e.name := by
                   rw [← hid]
                   exact hitem en0 rest0 h0
-                refine ⟨hst.steps.trans0' (k12_Steps.one (k12_Step.addInst _ _ _ _ he)), ?_, ?_, ?_⟩
+                refine ⟨hst.steps.trans0' (k12_Steps.one (k12_Step.addInst _ _ _ _ he)), ?_, ?_, ?_, ?_⟩
                 · rw [← hst.shape]; rfl
                 · intro en' rest he'
                   simp only [List.cons.injEq, Frame.enum.injEq] at he'
@@ -1142,12 +1229,13 @@ theorem k12_leaveAssignment_ok {s s' : VSt} {u : Unit} (h : leaveAssignment s = 
                 · intro f0 rest1 he'
                   obtain ⟨r', hr'⟩ := hst.topFn f0 rest1 he'
                   simp at hr'
+                · rw [← hst.owner]; rfl
               · exact hst
     | _ => exact (k12_throw_ok h).elim
 
 
 theorem k12_walkAssignment_ok {env : AEnv} {a : Assignment} {s s' : VSt} {u : Unit} (h : walkAssignment env a s = .ok (u, s')) :
-    k12_Steps s.api s.stack [] s'.api s'.stack ∧ k12_shape s'.stack = k12_shape s.stack ∧
+    k12_Steps s.api s.stack [] [] s'.api s'.stack ∧ k12_shape s'.stack = k12_shape s.stack ∧
       ∀ f r, s.stack = .fn f :: r → ∃ r', s'.stack = .fn f :: r' := by
   unfold walkAssignment at h
   obtain ⟨_, s1, h1, h2⟩ := k12_bind_ok h
@@ -1161,7 +1249,7 @@ theorem k12_walkAssignment_ok {env : AEnv} {a : Assignment} {s s' : VSt} {u : Un
 
 theorem k12_walkAssignments_ok {env : AEnv} : ∀ (l : List Assignment) {s s' : VSt} {u : PUnit},
     (forIn l PUnit.unit (fun a _ => do walkAssignment env a; pure (ForInStep.yield PUnit.unit)) : V PUnit) s = .ok (u, s') →
-    k12_Steps s.api s.stack [] s'.api s'.stack ∧ k12_shape s'.stack = k12_shape s.stack ∧
+    k12_Steps s.api s.stack [] [] s'.api s'.stack ∧ k12_shape s'.stack = k12_shape s.stack ∧
       ∀ f r, s.stack = .fn f :: r → ∃ r', s'.stack = .fn f :: r'
   | [], s, s', u, h => by
     rw [List.forIn_nil] at h
@@ -1194,16 +1282,16 @@ theorem k12_shape_ne_nil {l l' : List Frame} (h : k12_shape l = k12_shape l') (h
   | cons a l' => simp [k12_shape] at h
 
 theorem k12_walkFunc_ok {env : AEnv} {f : FuncDef} {s s' : VSt} {u : Unit} (h : walkFunc env f s = .ok (u, s')) :
-    ∃ fn, k12_Steps s.api s.stack [fn] s'.api s'.stack ∧ k12_shape s'.stack = k12_shape s.stack ∧
+    ∃ fn, k12_Steps s.api s.stack [fn] [] s'.api s'.stack ∧ k12_shape s'.stack = k12_shape s.stack ∧
       fn.id = joinWith "/" (k12_segs s.stack ++ [f.name]) ∧ k12_FnMatch f fn := by
   unfold walkFunc at h
   obtain ⟨_, s1, h1, h2⟩ := k12_bind_ok h
   obtain ⟨fn, eapi, estk, hok, hm, hne⟩ := k12_enterFuncdef_ok h1
-  have hpush : k12_Steps s.api s.stack [] s1.api s1.stack := by
+  have hpush : k12_Steps s.api s.stack [] [] s1.api s1.stack := by
     rw [eapi, estk]
     exact k12_Steps.one (k12_Step.pushFn _ _ _ hok hne)
   -- the constructor's assignments
-  have hmid : ∃ s2 : VSt, leaveFuncdef s2 = .ok (u, s') ∧ k12_Steps s1.api s1.stack [] s2.api s2.stack ∧
+  have hmid : ∃ s2 : VSt, leaveFuncdef s2 = .ok (u, s') ∧ k12_Steps s1.api s1.stack [] [] s2.api s2.stack ∧
       k12_shape s2.stack = k12_shape s1.stack ∧ ∃ r', s2.stack = .fn fn :: r' := by
     dsimp only at h2
     split at h2
@@ -1250,27 +1338,51 @@ def k12_defsFuncs (pre : List String) (mode : WalkMode) : List Def → List (Str
   | d :: ds => k12_defFuncs pre mode d ++ k12_defsFuncs pre mode ds
 end
 
+mutual
+/-- the id of every class the walker stores below the id prefix `pre`, in the order `leave_classdef` stores them -/
+def k12_defClasses (pre : List String) (mode : WalkMode) : Def → List String
+  | .func _ => []
+  | .decorator _ => []
+  | .overloaded _ => []
+  | .cls name _ bases _ defs =>
+    if mode == .enum then []
+    else if isEnumClass bases then k12_defsClasses (pre ++ [name]) .enum defs
+    else k12_defsClasses (pre ++ [name]) .cls defs ++ [joinWith "/" (pre ++ [name])]
+  | .assign _ => []
+  | .docExpr _ _ => []
+  | .other _ => []
+def k12_defsClasses (pre : List String) (mode : WalkMode) : List Def → List String
+  | [] => []
+  | d :: ds => k12_defClasses pre mode d ++ k12_defsClasses pre mode ds
+end
+
 def k12_EvMatch (p : String × FuncDef) (fn : Function) : Prop := fn.id = p.1 ∧ k12_FnMatch p.2 fn
 
-/-- a successful (part of the) walk: a sequence of transitions that keeps the shape of the stack and records
-    exactly the functions `src` -/
-def k12_WalkOk (s s' : VSt) (src : List (String × FuncDef)) : Prop :=
-  ∃ evs, k12_Steps s.api s.stack evs s'.api s'.stack ∧ k12_shape s'.stack = k12_shape s.stack ∧
-    List.Forall₂ k12_EvMatch src evs
+/-- a successful (part of the) walk: a sequence of transitions that keeps the shape of the stack, records
+    exactly the functions `src` and stores exactly the classes with the ids `csrc` -/
+def k12_WalkOk (s s' : VSt) (src : List (String × FuncDef)) (csrc : List String) : Prop :=
+  ∃ evs cs, k12_Steps s.api s.stack evs cs s'.api s'.stack ∧ k12_shape s'.stack = k12_shape s.stack ∧
+    List.Forall₂ k12_EvMatch src evs ∧ cs.map (·.id) = csrc
 
-theorem k12_WalkOk.refl {s s' : VSt} (h1 : s'.api = s.api) (h2 : s'.stack = s.stack) : k12_WalkOk s s' [] :=
-  ⟨[], by rw [h1, h2]; exact k12_Steps.refl _ _, by rw [h2], List.Forall₂.nil⟩
+theorem k12_WalkOk.shape {s s' : VSt} {a : List (String × FuncDef)} {b : List String} (h : k12_WalkOk s s' a b) :
+    k12_shape s'.stack = k12_shape s.stack := by
+  obtain ⟨_, _, _, h2, _⟩ := h
+  exact h2
 
-theorem k12_WalkOk.trans {s s1 s2 : VSt} {a b : List (String × FuncDef)} (h1 : k12_WalkOk s s1 a) (h2 : k12_WalkOk s1 s2 b) :
-    k12_WalkOk s s2 (a ++ b) := by
-  obtain ⟨e1, hs1, hsh1, hm1⟩ := h1
-  obtain ⟨e2, hs2, hsh2, hm2⟩ := h2
-  exact ⟨e1 ++ e2, hs1.trans hs2 _ rfl, hsh2.trans hsh1, List.rel_append hm1 hm2⟩
+theorem k12_WalkOk.refl {s s' : VSt} (h1 : s'.api = s.api) (h2 : s'.stack = s.stack) : k12_WalkOk s s' [] [] :=
+  ⟨[], [], by rw [h1, h2]; exact k12_Steps.refl _ _, by rw [h2], List.Forall₂.nil, rfl⟩
+
+theorem k12_WalkOk.trans {s s1 s2 : VSt} {a b : List (String × FuncDef)} {ca cb : List String}
+    (h1 : k12_WalkOk s s1 a ca) (h2 : k12_WalkOk s1 s2 b cb) : k12_WalkOk s s2 (a ++ b) (ca ++ cb) := by
+  obtain ⟨e1, c1, hs1, hsh1, hm1, hc1⟩ := h1
+  obtain ⟨e2, c2, hs2, hsh2, hm2, hc2⟩ := h2
+  exact ⟨e1 ++ e2, c1 ++ c2, hs1.trans hs2 _ _ rfl rfl, hsh2.trans hsh1, List.rel_append hm1 hm2,
+    by rw [List.map_append, hc1, hc2]⟩
 
 theorem k12_walkFunc_walkOk {env : AEnv} {f : FuncDef} {s s' : VSt} {u : Unit} (h : walkFunc env f s = .ok (u, s')) :
-    k12_WalkOk s s' [(joinWith "/" (k12_segs s.stack ++ [f.name]), f)] := by
+    k12_WalkOk s s' [(joinWith "/" (k12_segs s.stack ++ [f.name]), f)] [] := by
   obtain ⟨fn, h1, h2, h3, h4⟩ := k12_walkFunc_ok h
-  exact ⟨[fn], h1, h2, List.Forall₂.cons ⟨h3, h4⟩ List.Forall₂.nil⟩
+  exact ⟨[fn], [], h1, h2, List.Forall₂.cons ⟨h3, h4⟩ List.Forall₂.nil, rfl⟩
 
 theorem k12_walkNone_ok {s s' : VSt} {u : Unit} (h : walkNone s = .ok (u, s')) : s'.api = s.api ∧ s'.stack = s.stack := by
   unfold walkNone at h
@@ -1286,20 +1398,42 @@ theorem k12_segs_cons (fr : Frame) (stk : List Frame) : k12_segs (fr :: stk) = k
   congr 1
 
 theorem k12_bracket {s s1 s2 s3 : VSt} {fr fr2 : Frame} {rest : List Frame} {src : List (String × FuncDef)}
-    (hpush : k12_Steps s.api s.stack [] s1.api s1.stack) (estk : s1.stack = fr :: s.stack) (hmid : k12_WalkOk s1 s2 src)
+    {csrc : List String} {cs3 : List Class}
+    (hpush : k12_Steps s.api s.stack [] [] s1.api s1.stack) (estk : s1.stack = fr :: s.stack) (hmid : k12_WalkOk s1 s2 src csrc)
     (hstk2 : s2.stack = fr2 :: rest) (hsh3 : k12_shape s3.stack = k12_shape rest)
-    (hpop : k12_Step s2.api s2.stack [] s3.api s3.stack) : k12_WalkOk s s3 src := by
-  obtain ⟨evs, hsteps, hsh, hm⟩ := hmid
-  refine ⟨evs, (hpush.trans0 hsteps).trans0' (k12_Steps.one hpop), ?_, hm⟩
+    (hpop : k12_Step s2.api s2.stack [] cs3 s3.api s3.stack) :
+    k12_WalkOk s s3 src (csrc ++ cs3.map (·.id)) ∧ k12_frameSig fr2 = k12_frameSig fr := by
+  obtain ⟨evs, cs, hsteps, hsh, hm, hc⟩ := hmid
   rw [hstk2, estk] at hsh
-  exact hsh3.trans (k12_shape_tail hsh)
+  refine ⟨⟨evs, cs ++ cs3, (hpush.trans0 hsteps).trans (k12_Steps.one hpop) _ _ (List.append_nil _).symm rfl, ?_, hm,
+    by rw [List.map_append, hc]⟩, ?_⟩
+  · exact hsh3.trans (k12_shape_tail hsh)
+  · simp only [k12_shape, List.map_cons, List.cons.injEq] at hsh
+    exact hsh.1
+
+/-- the kind of frame below which the walker selects children in the given mode -/
+def k12_modeKind : WalkMode → Nat
+  | .module => 0
+  | .cls => 1
+  | .enum => 3
+
+/-- the walker is in mode `mode` only directly below a frame of the matching kind -/
+def k12_ModeTop (mode : WalkMode) (stk : List Frame) : Prop := k12_topKind stk = some (k12_modeKind mode)
+
+theorem k12_ModeTop.parentOk {mode : WalkMode} {stk : List Frame} (h : k12_ModeTop mode stk) (hm : ¬ (mode == .enum) = true) :
+    k12_ParentOk stk := by
+  cases mode with
+  | module => exact Or.inl h
+  | cls => exact Or.inr h
+  | enum => exact absurd rfl hm
 
 mutual
 theorem k12_walkDef_ok (env : AEnv) (mode : WalkMode) : (d : Def) → ∀ {s s' : VSt} {u : Unit},
-    walkDef env mode d s = .ok (u, s') → s.stack ≠ [] → k12_WalkOk s s' (k12_defFuncs (k12_segs s.stack) mode d)
-  | .func f, s, s', u, h, _ => by
+    walkDef env mode d s = .ok (u, s') → s.stack ≠ [] → k12_ModeTop mode s.stack →
+    k12_WalkOk s s' (k12_defFuncs (k12_segs s.stack) mode d) (k12_defClasses (k12_segs s.stack) mode d)
+  | .func f, s, s', u, h, _, _ => by
     unfold walkDef at h
-    unfold k12_defFuncs
+    unfold k12_defFuncs k12_defClasses
     split at h
     · rename_i hm
       rw [if_pos hm]
@@ -1308,9 +1442,9 @@ theorem k12_walkDef_ok (env : AEnv) (mode : WalkMode) : (d : Def) → ∀ {s s' 
     · rename_i hm
       rw [if_neg hm]
       exact k12_walkFunc_walkOk h
-  | .decorator f, s, s', u, h, _ => by
+  | .decorator f, s, s', u, h, _, _ => by
     unfold walkDef at h
-    unfold k12_defFuncs
+    unfold k12_defFuncs k12_defClasses
     split at h
     · rename_i hm
       rw [if_pos hm]
@@ -1319,9 +1453,9 @@ theorem k12_walkDef_ok (env : AEnv) (mode : WalkMode) : (d : Def) → ∀ {s s' 
     · rename_i hm
       rw [if_neg hm]
       exact k12_walkFunc_walkOk h
-  | .overloaded impl, s, s', u, h, _ => by
+  | .overloaded impl, s, s', u, h, _, _ => by
     unfold walkDef at h
-    unfold k12_defFuncs
+    unfold k12_defFuncs k12_defClasses
     split at h
     · rename_i hm
       rw [if_pos hm]
@@ -1334,78 +1468,94 @@ theorem k12_walkDef_ok (env : AEnv) (mode : WalkMode) : (d : Def) → ∀ {s s' 
       rw [if_neg hm]
       obtain ⟨_, rfl⟩ := k12_pure_ok h
       exact k12_WalkOk.refl rfl rfl
-  | .cls name fullname bases removed defs, s, s', u, h, hne => by
+  | .cls name fullname bases removed defs, s, s', u, h, hne, hmt => by
     unfold walkDef at h
-    unfold k12_defFuncs
+    unfold k12_defFuncs k12_defClasses
     split at h
     · rename_i hm
-      rw [if_pos hm]
+      rw [if_pos hm, if_pos hm]
       obtain ⟨_, rfl⟩ := k12_pure_ok h
       exact k12_WalkOk.refl rfl rfl
     · rename_i hm
-      rw [if_neg hm]
+      rw [if_neg hm, if_neg hm]
       split at h
       · rename_i he
-        rw [if_pos he]
+        rw [if_pos he, if_pos he]
         obtain ⟨_, s1, h1, h⟩ := k12_bind_ok h
         obtain ⟨_, s2, h2, h3⟩ := k12_bind_ok h
         obtain ⟨e, eapi, estk, eok, ename⟩ := k12_enterEnumdef_ok h1
         have hne1 : s1.stack ≠ [] := by rw [estk]; simp
-        have ih := k12_walkDefs_ok env .enum defs h2 hne1
+        have ih := k12_walkDefs_ok env .enum defs h2 hne1 (by rw [estk]; rfl)
         have hsegs : k12_segs s1.stack = k12_segs s.stack ++ [name] := by
           rw [estk, k12_segs_cons]; simp only [frameSegment, Option.toList_some, ename]
         rw [hsegs] at ih
         obtain ⟨e', rest, hstk2, hsh3, hstep⟩ := k12_leaveEnumdef_ok h3
-        refine k12_bracket ?_ estk ih hstk2 hsh3 hstep
-        rw [eapi, estk]
-        exact k12_Steps.one (k12_Step.pushEnum _ _ _ eok hne)
+        have hb := (k12_bracket (by rw [eapi, estk]; exact k12_Steps.one (k12_Step.pushEnum _ _ _ eok hne))
+          estk ih hstk2 hsh3 hstep).1
+        rw [List.map_nil, List.append_nil] at hb
+        exact hb
       · rename_i he
-        rw [if_neg he]
+        rw [if_neg he, if_neg he]
         obtain ⟨_, s1, h1, h⟩ := k12_bind_ok h
         obtain ⟨_, s2, h2, h3⟩ := k12_bind_ok h
         obtain ⟨c, eapi, estk, cok, cname, _⟩ := k12_enterClassdef_ok h1
         have hne1 : s1.stack ≠ [] := by rw [estk]; simp
-        have ih := k12_walkDefs_ok env .cls defs h2 hne1
+        have ih := k12_walkDefs_ok env .cls defs h2 hne1 (by rw [estk]; rfl)
         have hsegs : k12_segs s1.stack = k12_segs s.stack ++ [name] := by
           rw [estk, k12_segs_cons]; simp only [frameSegment, Option.toList_some, cname]
         rw [hsegs] at ih
-        obtain ⟨c', rest, hstk2, hsh3, hstep⟩ := k12_leaveClassdef_ok h3
-        refine k12_bracket ?_ estk ih hstk2 hsh3 hstep
-        rw [eapi, estk]
-        exact k12_Steps.one (k12_Step.pushCls _ _ _ cok hne)
-  | .assign a, s, s', u, h, _ => by
+        have hk : ∀ c' rest, s2.stack = .cls c' :: rest → k12_ParentOk rest := by
+          intro c' rest he2
+          have hsh := ih.shape
+          rw [he2, estk] at hsh
+          have := k12_topKind_of_shape (k12_shape_tail hsh)
+          unfold k12_ParentOk
+          rw [this]
+          exact hmt.parentOk hm
+        obtain ⟨c', rest, hstk2, hsh3, hstep⟩ := k12_leaveClassdef_ok h3 hk
+        have hb := k12_bracket (by rw [eapi, estk]; exact k12_Steps.one (k12_Step.pushCls _ _ _ cok hne))
+          estk ih hstk2 hsh3 hstep
+        have hid : c'.id = joinWith "/" (k12_segs s.stack ++ [name]) := by
+          have := congrArg (·.2.2) hb.2
+          rw [← cname, ← cok.id_eq]
+          exact this
+        have hb1 := hb.1
+        rw [List.map_cons, List.map_nil, hid] at hb1
+        exact hb1
+  | .assign a, s, s', u, h, _, _ => by
     unfold walkDef at h
-    unfold k12_defFuncs
+    unfold k12_defFuncs k12_defClasses
     split at h
     · obtain ⟨_, rfl⟩ := k12_pure_ok h
       exact k12_WalkOk.refl rfl rfl
     · have := k12_walkAssignment_ok h
-      exact ⟨[], this.1, this.2.1, List.Forall₂.nil⟩
-  | .docExpr _ _, s, s', u, h, _ => by
+      exact ⟨[], [], this.1, this.2.1, List.Forall₂.nil, rfl⟩
+  | .docExpr _ _, s, s', u, h, _, _ => by
     unfold walkDef at h
-    unfold k12_defFuncs
+    unfold k12_defFuncs k12_defClasses
     obtain ⟨_, rfl⟩ := k12_pure_ok h
     exact k12_WalkOk.refl rfl rfl
-  | .other _, s, s', u, h, _ => by
+  | .other _, s, s', u, h, _, _ => by
     unfold walkDef at h
-    unfold k12_defFuncs
+    unfold k12_defFuncs k12_defClasses
     obtain ⟨_, rfl⟩ := k12_pure_ok h
     exact k12_WalkOk.refl rfl rfl
 theorem k12_walkDefs_ok (env : AEnv) (mode : WalkMode) : (ds : List Def) → ∀ {s s' : VSt} {u : Unit},
-    walkDefs env mode ds s = .ok (u, s') → s.stack ≠ [] → k12_WalkOk s s' (k12_defsFuncs (k12_segs s.stack) mode ds)
-  | [], s, s', u, h, _ => by
+    walkDefs env mode ds s = .ok (u, s') → s.stack ≠ [] → k12_ModeTop mode s.stack →
+    k12_WalkOk s s' (k12_defsFuncs (k12_segs s.stack) mode ds) (k12_defsClasses (k12_segs s.stack) mode ds)
+  | [], s, s', u, h, _, _ => by
     unfold walkDefs at h
-    unfold k12_defsFuncs
+    unfold k12_defsFuncs k12_defsClasses
     obtain ⟨_, rfl⟩ := k12_pure_ok h
     exact k12_WalkOk.refl rfl rfl
-  | d :: ds, s, s', u, h, hne => by
+  | d :: ds, s, s', u, h, hne, hmt => by
     unfold walkDefs at h
-    unfold k12_defsFuncs
+    unfold k12_defsFuncs k12_defsClasses
     obtain ⟨_, s1, h1, h2⟩ := k12_bind_ok h
-    have r1 := k12_walkDef_ok env mode d h1 hne
-    have hne1 : s1.stack ≠ [] := k12_shape_ne_nil r1.choose_spec.2.1 hne
-    have r2 := k12_walkDefs_ok env mode ds h2 hne1
-    rw [k12_segs_eq_of_shape r1.choose_spec.2.1] at r2
+    have r1 := k12_walkDef_ok env mode d h1 hne hmt
+    have hne1 : s1.stack ≠ [] := k12_shape_ne_nil r1.shape hne
+    have r2 := k12_walkDefs_ok env mode ds h2 hne1 ((k12_topKind_of_shape r1.shape).trans hmt)
+    rw [k12_segs_eq_of_shape r1.shape] at r2
     exact r1.trans r2
 end
 
@@ -1418,9 +1568,18 @@ def k12_srcFuncs : List SrcModule → List (String × FuncDef)
   | [] => []
   | m :: ms => k12_modFuncs m ++ k12_srcFuncs ms
 
+/-- the ids of the classes of one source module / of all analysed modules, in the order the analyser stores them -/
+def k12_modClasses (m : SrcModule) : List String :=
+  k12_defsClasses [replaceChar m.fullname '.' "/"] .module m.defs
+
+def k12_srcClasses : List SrcModule → List String
+  | [] => []
+  | m :: ms => k12_modClasses m ++ k12_srcClasses ms
+
 theorem k12_walkModule_ok {env : AEnv} {m : SrcModule} {s s' : VSt} {u : Unit} (h : walkModule env m s = .ok (u, s'))
     (hs : s.stack = []) :
-    s'.stack = [] ∧ ∃ evs, k12_Steps s.api [] evs s'.api [] ∧ List.Forall₂ k12_EvMatch (k12_modFuncs m) evs := by
+    s'.stack = [] ∧ ∃ evs cs, k12_Steps s.api [] evs cs s'.api [] ∧ List.Forall₂ k12_EvMatch (k12_modFuncs m) evs ∧
+      cs.map (·.id) = k12_modClasses m := by
   unfold walkModule at h
   obtain ⟨_, s0, h0, h⟩ := k12_bind_ok h
   have e0 : s0.api = s.api ∧ s0.stack = s.stack := by rw [k12_modify_ok h0]; exact ⟨rfl, rfl⟩
@@ -1430,11 +1589,11 @@ theorem k12_walkModule_ok {env : AEnv} {m : SrcModule} {s s' : VSt} {u : Unit} (
   rw [e0.2, hs] at estk
   rw [e0.1] at eapi
   have hne1 : s1.stack ≠ [] := by rw [estk]; simp
-  have ih := k12_walkDefs_ok env .module m.defs h2 hne1
+  have ih := k12_walkDefs_ok env .module m.defs h2 hne1 (by rw [estk]; rfl)
   have hsegs : k12_segs s1.stack = [replaceChar m.fullname '.' "/"] := by
     rw [estk, k12_segs_cons]; simp only [frameSegment, Option.toList_some, eid]; rfl
   rw [hsegs] at ih
-  obtain ⟨evs, hsteps, hsh, hm⟩ := ih
+  obtain ⟨evs, cs, hsteps, hsh, hm, hcs⟩ := ih
   obtain ⟨md', rest, hstk2, hstk3, hpop⟩ := k12_leaveModuledef_ok h3
   have hrest : rest = [] := by
     rw [hstk2, estk] at hsh
@@ -1443,41 +1602,44 @@ theorem k12_walkModule_ok {env : AEnv} {m : SrcModule} {s s' : VSt} {u : Unit} (
     | nil => rfl
     | cons a l => simp [k12_shape] at this
   subst hrest
-  refine ⟨hstk3, evs, ?_, hm⟩
-  have hpush : k12_Steps s.api [] [] s1.api s1.stack := by
+  refine ⟨hstk3, evs, cs, ?_, hm, hcs⟩
+  have hpush : k12_Steps s.api [] [] [] s1.api s1.stack := by
     rw [eapi, estk]
-    exact .cons (k12_Step.reexp s.api [] rm) (k12_Steps.one (k12_Step.pushModule _ [] md ec ef ee)) rfl
+    exact .cons (k12_Step.reexp s.api [] rm) (k12_Steps.one (k12_Step.pushModule _ [] md ec ef ee)) rfl rfl
   have := (hpush.trans0 hsteps).trans0' (k12_Steps.one hpop)
   rw [hstk3] at this
   exact this
 
 theorem k12_walkModules_ok {env : AEnv} : ∀ (ms : List SrcModule) {s s' : VSt} {u : Unit},
     walkModules env ms s = .ok (u, s') → s.stack = [] →
-    s'.stack = [] ∧ ∃ evs, k12_Steps s.api [] evs s'.api [] ∧ List.Forall₂ k12_EvMatch (k12_srcFuncs ms) evs
+    s'.stack = [] ∧ ∃ evs cs, k12_Steps s.api [] evs cs s'.api [] ∧ List.Forall₂ k12_EvMatch (k12_srcFuncs ms) evs ∧
+      cs.map (·.id) = k12_srcClasses ms
   | [], s, s', u, h, hs => by
     unfold walkModules at h
     obtain ⟨_, rfl⟩ := k12_pure_ok h
-    exact ⟨hs, [], k12_Steps.refl _ _, List.Forall₂.nil⟩
+    exact ⟨hs, [], [], k12_Steps.refl _ _, List.Forall₂.nil, rfl⟩
   | m :: ms, s, s', u, h, hs => by
     unfold walkModules at h
     obtain ⟨_, s1, h1, h2⟩ := k12_bind_ok h
-    obtain ⟨hs1, e1, hst1, hm1⟩ := k12_walkModule_ok h1 hs
-    obtain ⟨hs2, e2, hst2, hm2⟩ := k12_walkModules_ok ms h2 hs1
-    exact ⟨hs2, e1 ++ e2, hst1.trans hst2 _ rfl, List.rel_append hm1 hm2⟩
+    obtain ⟨hs1, e1, c1, hst1, hm1, hc1⟩ := k12_walkModule_ok h1 hs
+    obtain ⟨hs2, e2, c2, hst2, hm2, hc2⟩ := k12_walkModules_ok ms h2 hs1
+    exact ⟨hs2, e1 ++ e2, c1 ++ c2, hst1.trans hst2 _ _ rfl rfl, List.rel_append hm1 hm2,
+      by rw [List.map_append, hc1, hc2]; rfl⟩
 
 /-- every successful analysis is a sequence of abstract transitions from the empty tables -/
 theorem k12_analyze_steps {env : AEnv} {root : GNode} {mods : List SrcModule} {r : AnaResult} {w : List String}
     (h : analyze env root mods = .ok (r, w)) :
-    ∃ evs, k12_Steps {} [] evs r [] ∧ List.Forall₂ k12_EvMatch (k12_srcFuncs mods) evs := by
+    ∃ evs cs, k12_Steps {} [] evs cs r [] ∧ List.Forall₂ k12_EvMatch (k12_srcFuncs mods) evs ∧
+      cs.map (·.id) = k12_srcClasses mods := by
   unfold analyze at h
   dsimp only at h
   split at h
   · exact absurd h (by simp)
   · rename_i s hrun
     simp only [Except.ok.injEq, Prod.mk.injEq] at h
-    obtain ⟨_, evs, hsteps, hm⟩ := k12_walkModules_ok mods hrun rfl
+    obtain ⟨_, evs, cs, hsteps, hm, hcs⟩ := k12_walkModules_ok mods hrun rfl
     rw [h.1] at hsteps
-    exact ⟨evs, hsteps, hm⟩
+    exact ⟨evs, cs, hsteps, hm, hcs⟩
 
 
 /-! ### `dictSet` -/
@@ -1592,12 +1754,12 @@ theorem k12_sortStrings_strict {l : List String} (h : l.Nodup) : (sortStrings l)
   ((sortStrings_pairwise_le l).and ((sortStrings_perm l).nodup_iff.2 h)).imp (fun h => lt_of_le_of_ne h.1 h.2)
 
 theorem k12_Steps_inv (I : AnaResult → List Frame → Prop)
-    (hstep : ∀ a s e a' s', k12_Step a s e a' s' → I a s → I a' s') :
-    ∀ {a s e a' s'}, k12_Steps a s e a' s' → I a s → I a' s' := by
-  intro a s e a' s' h
+    (hstep : ∀ a s e c a' s', k12_Step a s e c a' s' → I a s → I a' s') :
+    ∀ {a s e c a' s'}, k12_Steps a s e c a' s' → I a s → I a' s' := by
+  intro a s e c a' s' h
   induction h with
   | refl => exact id
-  | cons h1 _ _ ih => exact fun hi => ih (hstep _ _ _ _ _ h1 hi)
+  | cons h1 _ _ _ ih => exact fun hi => ih (hstep _ _ _ _ _ _ h1 hi)
 
 /-! ### invariant 1: no table holds two entries with the same id -/
 
@@ -1611,11 +1773,11 @@ structure k12_NodupTables (api : AnaResult) : Prop where
   attributes : (api.attributes.map (·.id)).Nodup
   parameters : (api.parameters.map (·.id)).Nodup
 
-theorem k12_NodupTables_step {a : AnaResult} {s : List Frame} {e : List Function} {a' : AnaResult} {s' : List Frame}
-    (h : k12_Step a s e a' s') (hi : k12_NodupTables a) : k12_NodupTables a' := by
+theorem k12_NodupTables_step {a : AnaResult} {s : List Frame} {e : List Function} {cs : List Class} {a' : AnaResult}
+    {s' : List Frame} (h : k12_Step a s e cs a' s') (hi : k12_NodupTables a) : k12_NodupTables a' := by
   cases h with
   | reexp => exact ⟨hi.1, hi.2, hi.3, hi.4, hi.5, hi.6, hi.7, hi.8⟩
-  | pushModule | pushFn | pushCls | pushEnum | drop => exact hi
+  | pushModule | pushFn | pushCls | pushEnum | dropEnum => exact hi
   | popModule m => exact ⟨k12_dictSet_nodup _ _ hi.1, hi.2, hi.3, hi.4, hi.5, hi.6, hi.7, hi.8⟩
   | popFn f =>
     exact ⟨hi.1, hi.2, k12_dictSet_nodup _ _ hi.3, k12_foldl_dictSet_nodup _ _ hi.4, hi.5, hi.6, hi.7,
@@ -1627,8 +1789,8 @@ theorem k12_NodupTables_step {a : AnaResult} {s : List Frame} {e : List Function
 
 theorem k12_analyze_nodup {env : AEnv} {root : GNode} {mods : List SrcModule} {r : AnaResult} {w : List String}
     (h : analyze env root mods = .ok (r, w)) : k12_NodupTables r := by
-  obtain ⟨evs, hsteps, _⟩ := k12_analyze_steps h
-  exact k12_Steps_inv (fun a _ => k12_NodupTables a) (fun _ _ _ _ _ hs hi => k12_NodupTables_step hs hi) hsteps
+  obtain ⟨evs, _, hsteps, _, _⟩ := k12_analyze_steps h
+  exact k12_Steps_inv (fun a _ => k12_NodupTables a) (fun _ _ _ _ _ _ hs hi => k12_NodupTables_step hs hi) hsteps
     ⟨List.nodup_nil, List.nodup_nil, List.nodup_nil, List.nodup_nil, List.nodup_nil, List.nodup_nil, List.nodup_nil,
       List.nodup_nil⟩
 
@@ -1652,7 +1814,7 @@ theorem k12_joinWith_snoc (sep : String) (a : String) : ∀ (l : List String), l
     simp only [String.append_assoc]
 
 /-- the bottom frame of the stack has an id segment (it is a module in every reachable state) -/
-def k12_rooted (stk : List Frame) : Prop := ∀ o, (k12_shape stk).getLast? = some o → o ≠ none
+def k12_rooted (stk : List Frame) : Prop := ∀ o, (k12_shape stk).getLast? = some o → o.2.1 ≠ none
 
 theorem k12_rooted_nil : k12_rooted [] := by intro o h; simp [k12_shape] at h
 
@@ -1685,11 +1847,11 @@ theorem k12_rooted_pushModule {m : Module} {stk : List Frame} (hr : k12_rooted s
   | nil =>
     intro o ho
     simp only [k12_shape, List.map_cons, List.map_nil, List.getLast?_singleton, Option.some.injEq] at ho
-    rw [← ho]; simp [frameSegment]
+    rw [← ho]; simp [k12_frameSig, frameSegment]
   | cons a l => exact k12_rooted_push hr (by simp)
 
 theorem k12_segs_ne_nil {stk : List Frame} (hr : k12_rooted stk) (hne : stk ≠ []) : k12_segs stk ≠ [] := by
-  have e : k12_segs stk = ((k12_shape stk).reverse).filterMap id := by
+  have e : k12_segs stk = ((k12_shape stk).reverse).filterMap (·.2.1) := by
     unfold k12_segs k12_shape
     rw [← List.map_reverse, List.filterMap_map]
     rfl
@@ -1702,6 +1864,7 @@ theorem k12_segs_ne_nil {stk : List Frame} (hr : k12_rooted stk) (hne : stk ≠ 
     exact (List.dropLast_append_getLast hsh).symm
   have ho := hr o (by rw [hio]; simp)
   rw [hio, List.reverse_append]
+  obtain ⟨k, o, i⟩ := o
   cases o with
   | none => exact absurd rfl ho
   | some x => simp
@@ -1711,25 +1874,30 @@ theorem k12_form_of_id_eq {stk : List Frame} {id name : String} (hr : k12_rooted
   ⟨joinWith "/" (k12_segs stk), by rw [h, k12_joinWith_snoc _ _ _ (k12_segs_ne_nil hr hne)]⟩
 
 def k12_FrameForm : Frame → Prop
-  | .cls c => k12_Form c.id c.name
+  | .cls c => k12_Form c.id c.name ∧ ∀ a ∈ c.attributes, a.id = c.id ++ "/" ++ a.name
   | .fn f => k12_Form f.id f.name ∧ (∀ p ∈ f.params, p.id = f.id ++ "/" ++ p.name) ∧
       (∀ r ∈ f.results, r.id = f.id ++ "/" ++ r.name)
   | .enum e => k12_Form e.id e.name
   | _ => True
 
-/-- the id of an attribute: `<owner>/<name>` with the text `__init__/` removed -/
-def k12_AttrForm (a : Attribute) : Prop := ∃ owner, a.id = pyReplace (owner ++ "/" ++ a.name) "__init__/" ""
+/-- `id` is the id of a class of the table or of a class that is still open (on the declaration stack) -/
+def k12_Owned (api : AnaResult) (stk : List Frame) (id : String) : Prop :=
+  (∃ c ∈ api.classes, c.id = id) ∨ (∃ c, Frame.cls c ∈ stk ∧ c.id = id)
+
+/-- the id of an attribute: `<id of its class>/<name>` -/
+def k12_AttrForm (api : AnaResult) (stk : List Frame) (a : Attribute) : Prop :=
+  ∃ o, k12_Owned api stk o ∧ a.id = o ++ "/" ++ a.name
 
 structure k12_FormInv (api : AnaResult) (stk : List Frame) : Prop where
   rooted : k12_rooted stk
   frames : ∀ fr ∈ stk, k12_FrameForm fr
-  classes : ∀ x ∈ api.classes, k12_Form x.id x.name
-  functions : ∀ x ∈ api.functions, k12_Form x.id x.name
+  classes : ∀ x ∈ api.classes, k12_FrameForm (.cls x)
+  functions : ∀ x ∈ api.functions, k12_FrameForm (.fn x)
   enums : ∀ x ∈ api.enums, k12_Form x.id x.name
   enumInstances : ∀ x ∈ api.enumInstances, k12_Form x.id x.name
   parameters : ∀ p ∈ api.parameters, ∃ fn ∈ api.functions, p.id = fn.id ++ "/" ++ p.name
   results : ∀ r ∈ api.results, ∃ fn ∈ api.functions, r.id = fn.id ++ "/" ++ r.name
-  attributes : ∀ a ∈ api.attributes, k12_AttrForm a
+  attributes : ∀ a ∈ api.attributes, k12_AttrForm api stk a
 
 theorem k12_dictSet_exists_id {α : Type} (key : α → String) {tbl : List α} (v : α) {x : α} (hx : x ∈ tbl) :
     ∃ y ∈ dictSet key tbl v, key y = key x := by
@@ -1744,43 +1912,138 @@ theorem k12_fnParent_form (f : Function) {p : Frame} (h : k12_FrameForm p) : k12
     split <;> exact h
   | _ => exact h
 
-theorem k12_AttrForm_of_ok {stk : List Frame} {c : Class} {a : Attribute} (h : k12_AttrOk stk a)
-    (hs : ∃ l, k12_segs stk = l ++ [c.name]) : k12_AttrForm a := by
-  obtain ⟨l, hl⟩ := hs
-  refine ⟨joinWith "/" (k12_segs stk), ?_⟩
-  rw [← k12_joinWith_snoc _ _ _ (by rw [hl]; simp)]
-  exact h
+theorem k12_Owned.of_sub {a a' : AnaResult} {s s' : List Frame} {id : String} (h : k12_Owned a s id)
+    (hc : ∀ c ∈ a.classes, ∃ c' ∈ a'.classes, c'.id = c.id)
+    (hs : ∀ c, Frame.cls c ∈ s → (∃ c' ∈ a'.classes, c'.id = c.id) ∨ (∃ c', Frame.cls c' ∈ s' ∧ c'.id = c.id)) :
+    k12_Owned a' s' id := by
+  rcases h with ⟨c, hc', rfl⟩ | ⟨c, hc', rfl⟩
+  · exact Or.inl (hc c hc')
+  · exact hs c hc'
 
-theorem k12_FormInv_step {a : AnaResult} {s : List Frame} {e : List Function} {a' : AnaResult} {s' : List Frame}
-    (h : k12_Step a s e a' s') (hi : k12_FormInv a s) : k12_FormInv a' s' := by
+/-- every class of the table and every open class stays, with its id, in the table or open after a transition -/
+theorem k12_Owned_step {a : AnaResult} {s : List Frame} {e : List Function} {cs : List Class} {a' : AnaResult}
+    {s' : List Frame} (h : k12_Step a s e cs a' s') {id : String} (ho : k12_Owned a s id) : k12_Owned a' s' id := by
+  have keep : ∀ {tbl : List Class} (c : Class), c ∈ tbl → ∃ c' ∈ tbl, c'.id = c.id := fun c hc => ⟨c, hc, rfl⟩
   cases h with
-  | reexp => exact ⟨hi.1, hi.2, hi.3, hi.4, hi.5, hi.6, hi.7, hi.8, hi.9⟩
+  | reexp => exact ho
+  | pushModule _ m _ _ _ =>
+    exact ho.of_sub (fun c hc => keep c hc) (fun c hc => Or.inr ⟨c, List.mem_cons_of_mem _ hc, rfl⟩)
+  | popModule m rest =>
+    refine ho.of_sub (fun c hc => keep c hc) (fun c hc => Or.inr ⟨c, ?_, rfl⟩)
+    rcases List.mem_cons.1 hc with hc | hc
+    · exact absurd hc (by simp)
+    · exact hc
+  | pushFn _ fn _ _ =>
+    exact ho.of_sub (fun c hc => keep c hc) (fun c hc => Or.inr ⟨c, List.mem_cons_of_mem _ hc, rfl⟩)
+  | popFn f parent up =>
+    refine ho.of_sub (fun c hc => keep c hc) (fun c hc => Or.inr ?_)
+    rcases List.mem_cons.1 hc with hc | hc
+    · exact absurd hc (by simp)
+    rcases List.mem_cons.1 hc with hc | hc
+    · subst hc
+      refine ⟨if f.name == "__init__" then { c with ctor := some f } else { c with methods := c.methods ++ [f] },
+        ?_, ?_⟩
+      · refine List.mem_cons.2 (Or.inl ?_)
+        show _ = (if f.name == "__init__" then _ else _)
+        split <;> rfl
+      · split <;> rfl
+    · exact ⟨c, List.mem_cons_of_mem _ hc, rfl⟩
+  | pushCls _ c _ _ =>
+    exact ho.of_sub (fun c hc => keep c hc) (fun c hc => Or.inr ⟨c, List.mem_cons_of_mem _ hc, rfl⟩)
+  | popClsM c m up =>
+    refine ho.of_sub (fun x hx => k12_dictSet_exists_id (·.id) c hx) (fun x hx => ?_)
+    rcases List.mem_cons.1 hx with hx | hx
+    · simp only [Frame.cls.injEq] at hx
+      subst hx
+      exact Or.inl ⟨x, k12_self_mem_dictSet _ _ _, rfl⟩
+    rcases List.mem_cons.1 hx with hx | hx
+    · exact absurd hx (by simp)
+    · exact Or.inr ⟨x, List.mem_cons_of_mem _ hx, rfl⟩
+  | popClsC c p up =>
+    refine ho.of_sub (fun x hx => k12_dictSet_exists_id (·.id) c hx) (fun x hx => ?_)
+    rcases List.mem_cons.1 hx with hx | hx
+    · simp only [Frame.cls.injEq] at hx
+      subst hx
+      exact Or.inl ⟨x, k12_self_mem_dictSet _ _ _, rfl⟩
+    rcases List.mem_cons.1 hx with hx | hx
+    · simp only [Frame.cls.injEq] at hx
+      subst hx
+      exact Or.inr ⟨_, List.mem_cons_self, rfl⟩
+    · exact Or.inr ⟨x, List.mem_cons_of_mem _ hx, rfl⟩
+  | pushEnum _ en _ _ =>
+    exact ho.of_sub (fun c hc => keep c hc) (fun c hc => Or.inr ⟨c, List.mem_cons_of_mem _ hc, rfl⟩)
+  | popEnumM en m up =>
+    refine ho.of_sub (fun c hc => keep c hc) (fun c hc => Or.inr ⟨c, ?_, rfl⟩)
+    rcases List.mem_cons.1 hc with hc | hc
+    · exact absurd hc (by simp)
+    rcases List.mem_cons.1 hc with hc | hc
+    · exact absurd hc (by simp)
+    · exact List.mem_cons_of_mem _ hc
+  | dropEnum en rest =>
+    refine ho.of_sub (fun c hc => keep c hc) (fun c hc => Or.inr ⟨c, ?_, rfl⟩)
+    rcases List.mem_cons.1 hc with hc | hc
+    · exact absurd hc (by simp)
+    · exact hc
+  | addAttrF f c up att _ =>
+    refine ho.of_sub (fun c hc => keep c hc) (fun x hx => Or.inr ?_)
+    rcases List.mem_cons.1 hx with hx | hx
+    · exact absurd hx (by simp)
+    rcases List.mem_cons.1 hx with hx | hx
+    · simp only [Frame.cls.injEq] at hx
+      subst hx
+      exact ⟨_, List.mem_cons_of_mem _ List.mem_cons_self, rfl⟩
+    · exact ⟨x, List.mem_cons_of_mem _ (List.mem_cons_of_mem _ hx), rfl⟩
+  | addAttrC c up att _ =>
+    refine ho.of_sub (fun c hc => keep c hc) (fun x hx => Or.inr ?_)
+    rcases List.mem_cons.1 hx with hx | hx
+    · simp only [Frame.cls.injEq] at hx
+      subst hx
+      exact ⟨_, List.mem_cons_self, rfl⟩
+    · exact ⟨x, List.mem_cons_of_mem _ hx, rfl⟩
+  | addInst en up inst _ =>
+    refine ho.of_sub (fun c hc => keep c hc) (fun c hc => Or.inr ⟨c, ?_, rfl⟩)
+    rcases List.mem_cons.1 hc with hc | hc
+    · exact absurd hc (by simp)
+    · exact List.mem_cons_of_mem _ hc
+
+theorem k12_AttrForm_step {a : AnaResult} {s : List Frame} {e : List Function} {cs : List Class} {a' : AnaResult}
+    {s' : List Frame} (h : k12_Step a s e cs a' s') {x : Attribute} (hx : k12_AttrForm a s x) : k12_AttrForm a' s' x := by
+  obtain ⟨o, ho, hid⟩ := hx
+  exact ⟨o, k12_Owned_step h ho, hid⟩
+
+theorem k12_FormInv_step {a : AnaResult} {s : List Frame} {e : List Function} {cs : List Class} {a' : AnaResult}
+    {s' : List Frame} (h : k12_Step a s e cs a' s') (hi : k12_FormInv a s) : k12_FormInv a' s' := by
+  have hattr : ∀ x ∈ a.attributes, k12_AttrForm a' s' x := fun x hx => k12_AttrForm_step h (hi.attributes x hx)
+  cases h with
+  | reexp => exact ⟨hi.1, hi.2, hi.3, hi.4, hi.5, hi.6, hi.7, hi.8, hattr⟩
   | pushModule _ m _ _ _ =>
     exact { hi with rooted := k12_rooted_pushModule hi.rooted,
-                    frames := fun fr hfr => (List.mem_cons.1 hfr).elim (fun e => e ▸ trivial) (hi.frames fr) }
+                    frames := fun fr hfr => (List.mem_cons.1 hfr).elim (fun e => e ▸ trivial) (hi.frames fr),
+                    attributes := hattr }
   | popModule m rest =>
     exact ⟨k12_rooted_tail hi.rooted, fun fr hfr => hi.frames fr (List.mem_cons_of_mem _ hfr), hi.3, hi.4, hi.5, hi.6,
-      hi.7, hi.8, hi.9⟩
+      hi.7, hi.8, hattr⟩
   | pushFn _ fn hok hne =>
     refine { hi with rooted := k12_rooted_push hi.rooted hne,
-                     frames := fun fr hfr => (List.mem_cons.1 hfr).elim (fun e => ?_) (hi.frames fr) }
+                     frames := fun fr hfr => (List.mem_cons.1 hfr).elim (fun e => ?_) (hi.frames fr),
+                     attributes := hattr }
     rw [e]
     exact ⟨k12_form_of_id_eq hi.rooted hne hok.id_eq, hok.params, hok.results⟩
   | popFn f parent up =>
     have hf := hi.frames (.fn f) List.mem_cons_self
     have hfuncs : ∀ x ∈ a.functions, ∃ y ∈ dictSet (·.id) a.functions f, y.id = x.id :=
       fun x hx => k12_dictSet_exists_id (·.id) f hx
-    refine ⟨?_, ?_, hi.classes, ?_, hi.enums, hi.enumInstances, ?_, ?_, hi.attributes⟩
+    refine ⟨?_, ?_, hi.classes, ?_, hi.enums, hi.enumInstances, ?_, ?_, hattr⟩
     · refine k12_rooted_of_shape ?_ (k12_rooted_tail hi.rooted)
       show k12_shape (_ :: up) = k12_shape (parent :: up)
-      simp only [k12_shape, List.map_cons, k12_fnParent_segment]
+      simp only [k12_shape, List.map_cons, k12_fnParent_sig]
     · intro fr hfr
       rcases List.mem_cons.1 hfr with rfl | hfr
       · exact k12_fnParent_form f (hi.frames parent (List.mem_cons_of_mem _ List.mem_cons_self))
       · exact hi.frames fr (List.mem_cons_of_mem _ (List.mem_cons_of_mem _ hfr))
     · intro x hx
       rcases k12_mem_dictSet _ hx with rfl | hx
-      · exact hf.1
+      · exact hf
       · exact hi.functions x hx
     · intro p hp
       rcases k12_mem_foldl_dictSet _ _ hp with hp | hp
@@ -1796,11 +2059,12 @@ theorem k12_FormInv_step {a : AnaResult} {s : List Frame} {e : List Function} {a
         exact ⟨y, hy, by rw [hid, ← hyid]⟩
   | pushCls _ c hok hne =>
     refine { hi with rooted := k12_rooted_push hi.rooted hne,
-                     frames := fun fr hfr => (List.mem_cons.1 hfr).elim (fun e => ?_) (hi.frames fr) }
+                     frames := fun fr hfr => (List.mem_cons.1 hfr).elim (fun e => ?_) (hi.frames fr),
+                     attributes := hattr }
     rw [e]
-    exact k12_form_of_id_eq hi.rooted hne hok.id_eq
+    exact ⟨k12_form_of_id_eq hi.rooted hne hok.id_eq, by rw [hok.attributes]; exact fun _ h => absurd h List.not_mem_nil⟩
   | popClsM c m up =>
-    refine ⟨k12_rooted_tail hi.rooted, ?_, ?_, hi.4, hi.5, hi.6, hi.7, hi.8, hi.9⟩
+    refine ⟨k12_rooted_tail hi.rooted, ?_, ?_, hi.4, hi.5, hi.6, hi.7, hi.8, hattr⟩
     · intro fr hfr
       rcases List.mem_cons.1 hfr with rfl | hfr
       · trivial
@@ -1810,7 +2074,7 @@ theorem k12_FormInv_step {a : AnaResult} {s : List Frame} {e : List Function} {a
       · exact hi.frames (.cls x) List.mem_cons_self
       · exact hi.classes x hx
   | popClsC c p up =>
-    refine ⟨k12_rooted_tail hi.rooted, ?_, ?_, hi.4, hi.5, hi.6, hi.7, hi.8, hi.9⟩
+    refine ⟨k12_rooted_tail hi.rooted, ?_, ?_, hi.4, hi.5, hi.6, hi.7, hi.8, hattr⟩
     · intro fr hfr
       rcases List.mem_cons.1 hfr with rfl | hfr
       · exact hi.frames (.cls p) (List.mem_cons_of_mem _ List.mem_cons_self)
@@ -1821,11 +2085,12 @@ theorem k12_FormInv_step {a : AnaResult} {s : List Frame} {e : List Function} {a
       · exact hi.classes x hx
   | pushEnum _ en hok hne =>
     refine { hi with rooted := k12_rooted_push hi.rooted hne,
-                     frames := fun fr hfr => (List.mem_cons.1 hfr).elim (fun e => ?_) (hi.frames fr) }
+                     frames := fun fr hfr => (List.mem_cons.1 hfr).elim (fun e => ?_) (hi.frames fr),
+                     attributes := hattr }
     rw [e]
     exact k12_form_of_id_eq hi.rooted hne hok.id_eq
   | popEnumM en m up =>
-    refine ⟨k12_rooted_tail hi.rooted, ?_, hi.3, hi.4, ?_, hi.6, hi.7, hi.8, hi.9⟩
+    refine ⟨k12_rooted_tail hi.rooted, ?_, hi.3, hi.4, ?_, hi.6, hi.7, hi.8, hattr⟩
     · intro fr hfr
       rcases List.mem_cons.1 hfr with rfl | hfr
       · trivial
@@ -1834,34 +2099,38 @@ theorem k12_FormInv_step {a : AnaResult} {s : List Frame} {e : List Function} {a
       rcases k12_mem_dictSet _ hx with rfl | hx
       · exact hi.frames (.enum x) List.mem_cons_self
       · exact hi.enums x hx
-  | drop fr rest =>
+  | dropEnum en rest =>
     exact { hi with rooted := k12_rooted_tail hi.rooted,
-                    frames := fun fr hfr => hi.frames fr (List.mem_cons_of_mem _ hfr) }
+                    frames := fun fr hfr => hi.frames fr (List.mem_cons_of_mem _ hfr),
+                    attributes := hattr }
   | addAttrF f c up att hok =>
     refine ⟨k12_rooted_of_shape rfl hi.rooted, ?_, hi.3, hi.4, hi.5, hi.6, hi.7, hi.8, ?_⟩
     · intro fr hfr
       rcases List.mem_cons.1 hfr with rfl | hfr
       · exact hi.frames _ List.mem_cons_self
       · rcases List.mem_cons.1 hfr with rfl | hfr
-        · exact hi.frames (.cls c) (List.mem_cons_of_mem _ List.mem_cons_self)
+        · have hc := hi.frames (.cls c) (List.mem_cons_of_mem _ List.mem_cons_self)
+          exact ⟨hc.1, fun x hx => (List.mem_append.1 hx).elim (hc.2 x)
+            (fun e => by rw [List.mem_singleton.1 e]; exact hok)⟩
         · exact hi.frames fr (List.mem_cons_of_mem _ (List.mem_cons_of_mem _ hfr))
     · intro x hx
       rcases k12_mem_dictSet _ hx with rfl | hx
-      · exact k12_AttrForm_of_ok (c := ⟨"", f.name, [], true, {}, none, false, [], [], [], [], []⟩) hok
-          ⟨_, by rw [k12_segs_cons]; rfl⟩
-      · exact hi.attributes x hx
+      · exact ⟨c.id, Or.inr ⟨_, List.mem_cons_of_mem _ List.mem_cons_self, rfl⟩, hok⟩
+      · exact hattr x hx
   | addAttrC c up att hok =>
     refine ⟨k12_rooted_of_shape rfl hi.rooted, ?_, hi.3, hi.4, hi.5, hi.6, hi.7, hi.8, ?_⟩
     · intro fr hfr
       rcases List.mem_cons.1 hfr with rfl | hfr
-      · exact hi.frames (.cls c) List.mem_cons_self
+      · have hc := hi.frames (.cls c) List.mem_cons_self
+        exact ⟨hc.1, fun x hx => (List.mem_append.1 hx).elim (hc.2 x)
+          (fun e => by rw [List.mem_singleton.1 e]; exact hok)⟩
       · exact hi.frames fr (List.mem_cons_of_mem _ hfr)
     · intro x hx
       rcases k12_mem_dictSet _ hx with rfl | hx
-      · exact k12_AttrForm_of_ok (c := c) hok ⟨_, by rw [k12_segs_cons]; rfl⟩
-      · exact hi.attributes x hx
+      · exact ⟨c.id, Or.inr ⟨_, List.mem_cons_self, rfl⟩, hok⟩
+      · exact hattr x hx
   | addInst en up inst hid =>
-    refine ⟨k12_rooted_of_shape rfl hi.rooted, ?_, hi.3, hi.4, hi.5, ?_, hi.7, hi.8, hi.9⟩
+    refine ⟨k12_rooted_of_shape rfl hi.rooted, ?_, hi.3, hi.4, hi.5, ?_, hi.7, hi.8, hattr⟩
     · intro fr hfr
       rcases List.mem_cons.1 hfr with rfl | hfr
       · exact hi.frames (.enum en) List.mem_cons_self
@@ -1871,10 +2140,17 @@ theorem k12_FormInv_step {a : AnaResult} {s : List Frame} {e : List Function} {a
       · exact ⟨en.id, hid⟩
       · exact hi.enumInstances x hx
 
+theorem k12_AttrForm_nil {api : AnaResult} {a : Attribute} (h : k12_AttrForm api [] a) :
+    ∃ c ∈ api.classes, a.id = c.id ++ "/" ++ a.name := by
+  obtain ⟨o, ho, hid⟩ := h
+  rcases ho with ⟨c, hc, rfl⟩ | ⟨c, hc, _⟩
+  · exact ⟨c, hc, hid⟩
+  · exact absurd hc List.not_mem_nil
+
 theorem k12_analyze_forms {env : AEnv} {root : GNode} {mods : List SrcModule} {r : AnaResult} {w : List String}
     (h : analyze env root mods = .ok (r, w)) : k12_FormInv r [] := by
-  obtain ⟨evs, hsteps, _⟩ := k12_analyze_steps h
-  refine k12_Steps_inv k12_FormInv (fun _ _ _ _ _ hs hi => k12_FormInv_step hs hi) hsteps ?_
+  obtain ⟨evs, _, hsteps, _, _⟩ := k12_analyze_steps h
+  refine k12_Steps_inv k12_FormInv (fun _ _ _ _ _ _ hs hi => k12_FormInv_step hs hi) hsteps ?_
   exact ⟨k12_rooted_nil, fun _ h => absurd h List.not_mem_nil, fun _ h => absurd h List.not_mem_nil,
     fun _ h => absurd h List.not_mem_nil, fun _ h => absurd h List.not_mem_nil, fun _ h => absurd h List.not_mem_nil,
     fun _ h => absurd h List.not_mem_nil, fun _ h => absurd h List.not_mem_nil, fun _ h => absurd h List.not_mem_nil⟩
@@ -1959,8 +2235,8 @@ theorem k12_sub_dictSet {α : Type} (key : α → String) (tbl : List α) (v : 
 theorem k12_new_dictSet {α : Type} (key : α → String) (tbl : List α) (v : α) : key v ∈ (dictSet key tbl v).map key :=
   (k12_dictSet_ids key tbl v _).2 (Or.inr rfl)
 
-theorem k12_RefInv_step {a : AnaResult} {s : List Frame} {e : List Function} {a' : AnaResult} {s' : List Frame}
-    (h : k12_Step a s e a' s') (hi : k12_RefInv a s) : k12_RefInv a' s' := by
+theorem k12_RefInv_step {a : AnaResult} {s : List Frame} {e : List Function} {cs : List Class} {a' : AnaResult}
+    {s' : List Frame} (h : k12_Step a s e cs a' s') (hi : k12_RefInv a s) : k12_RefInv a' s' := by
   cases h with
   | reexp =>
     exact k12_RefInv.mono (a := a) ⟨fun _ h => h, fun _ h => h, fun _ h => h, fun _ h => h, fun _ h => h, fun _ h => h,
@@ -2090,7 +2366,7 @@ theorem k12_RefInv_step {a : AnaResult} {s : List Frame} {e : List Function} {a'
         · exact hp.2.2 x hx
         · rw [List.mem_singleton.1 hx]; exact k12_new_dictSet _ _ _
       · exact k12_FrameR.mono hsub (hi.frames fr (List.mem_cons_of_mem _ (List.mem_cons_of_mem _ hfr')))
-  | drop fr rest => exact hi.frames' (fun fr hfr => hi.frames fr (List.mem_cons_of_mem _ hfr))
+  | dropEnum en rest => exact hi.frames' (fun fr hfr => hi.frames fr (List.mem_cons_of_mem _ hfr))
   | addAttrF f c up att hok =>
     have hsub : k12_Sub a { a with attributes := dictSet (·.id) a.attributes att } :=
       { k12_Sub.refl a with attributes := k12_sub_dictSet _ _ _ }
@@ -2134,23 +2410,255 @@ theorem k12_RefInv_step {a : AnaResult} {s : List Frame} {e : List Function} {a'
 
 theorem k12_analyze_refs {env : AEnv} {root : GNode} {mods : List SrcModule} {r : AnaResult} {w : List String}
     (h : analyze env root mods = .ok (r, w)) : k12_RefInv r [] := by
-  obtain ⟨evs, hsteps, _⟩ := k12_analyze_steps h
-  refine k12_Steps_inv k12_RefInv (fun _ _ _ _ _ hs hi => k12_RefInv_step hs hi) hsteps ?_
+  obtain ⟨evs, _, hsteps, _, _⟩ := k12_analyze_steps h
+  refine k12_Steps_inv k12_RefInv (fun _ _ _ _ _ _ hs hi => k12_RefInv_step hs hi) hsteps ?_
   exact ⟨fun _ h => absurd h List.not_mem_nil, fun _ h => absurd h List.not_mem_nil,
     fun _ h => absurd h List.not_mem_nil, fun _ h => absurd h List.not_mem_nil, fun _ h => absurd h List.not_mem_nil⟩
 
 
 /-! ### the `functions` table is the fold of the recorded functions -/
 
-theorem k12_Step_functions {a : AnaResult} {s : List Frame} {e : List Function} {a' : AnaResult} {s' : List Frame}
-    (h : k12_Step a s e a' s') : a'.functions = e.foldl (dictSet (·.id)) a.functions := by
+theorem k12_Step_functions {a : AnaResult} {s : List Frame} {e : List Function} {cs : List Class} {a' : AnaResult}
+    {s' : List Frame} (h : k12_Step a s e cs a' s') : a'.functions = e.foldl (dictSet (·.id)) a.functions := by
   cases h <;> rfl
 
-theorem k12_Steps_functions {a : AnaResult} {s : List Frame} {e : List Function} {a' : AnaResult} {s' : List Frame}
-    (h : k12_Steps a s e a' s') : a'.functions = e.foldl (dictSet (·.id)) a.functions := by
+theorem k12_Steps_functions {a : AnaResult} {s : List Frame} {e : List Function} {cs : List Class} {a' : AnaResult}
+    {s' : List Frame} (h : k12_Steps a s e cs a' s') : a'.functions = e.foldl (dictSet (·.id)) a.functions := by
   induction h with
   | refl => rfl
-  | cons h1 _ he ih => rw [ih, k12_Step_functions h1, he, List.foldl_append]
+  | cons h1 _ he _ ih => rw [ih, k12_Step_functions h1, he, List.foldl_append]
+
+/-! ### parameters and results come from the recorded functions -/
+
+theorem k12_Step_parts {a : AnaResult} {s : List Frame} {e : List Function} {cs : List Class} {a' : AnaResult}
+    {s' : List Frame} (h : k12_Step a s e cs a' s') :
+    (∀ p ∈ a'.parameters, p ∈ a.parameters ∨ ∃ f ∈ e, p ∈ f.params) ∧
+    (∀ x ∈ a'.results, x ∈ a.results ∨ ∃ f ∈ e, x ∈ f.results) := by
+  cases h with
+  | popFn f parent up =>
+    refine ⟨fun p hp => ?_, fun x hx => ?_⟩
+    · rcases k12_mem_foldl_dictSet _ _ hp with hp | hp
+      · exact Or.inr ⟨f, List.mem_singleton.2 rfl, hp⟩
+      · exact Or.inl hp
+    · rcases k12_mem_foldl_dictSet _ _ hx with hx | hx
+      · exact Or.inr ⟨f, List.mem_singleton.2 rfl, hx⟩
+      · exact Or.inl hx
+  | _ => exact ⟨fun _ hp => Or.inl hp, fun _ hx => Or.inl hx⟩
+
+theorem k12_Steps_parts {a : AnaResult} {s : List Frame} {e : List Function} {cs : List Class} {a' : AnaResult}
+    {s' : List Frame} (h : k12_Steps a s e cs a' s') :
+    (∀ p ∈ a'.parameters, p ∈ a.parameters ∨ ∃ f ∈ e, p ∈ f.params) ∧
+    (∀ x ∈ a'.results, x ∈ a.results ∨ ∃ f ∈ e, x ∈ f.results) := by
+  induction h with
+  | refl => exact ⟨fun _ hp => Or.inl hp, fun _ hx => Or.inl hx⟩
+  | cons h1 _ he _ ih =>
+    have h0 := k12_Step_parts h1
+    subst he
+    refine ⟨fun p hp => ?_, fun x hx => ?_⟩
+    · rcases ih.1 p hp with hp | ⟨f, hf, hp⟩
+      · rcases h0.1 p hp with hp | ⟨f, hf, hp⟩
+        · exact Or.inl hp
+        · exact Or.inr ⟨f, List.mem_append_left _ hf, hp⟩
+      · exact Or.inr ⟨f, List.mem_append_right _ hf, hp⟩
+    · rcases ih.2 x hx with hx | ⟨f, hf, hx⟩
+      · rcases h0.2 x hx with hx | ⟨f, hf, hx⟩
+        · exact Or.inl hx
+        · exact Or.inr ⟨f, List.mem_append_left _ hf, hx⟩
+      · exact Or.inr ⟨f, List.mem_append_right _ hf, hx⟩
+
+/-- without two writes to one key the table is the list of the written values -/
+theorem k12_foldl_dictSet_of_nodup {α : Type} (key : α → String) : ∀ (vs tbl : List α),
+    ((tbl ++ vs).map key).Nodup → vs.foldl (dictSet key) tbl = tbl ++ vs
+  | [], tbl, _ => by simp
+  | v :: vs, tbl, h => by
+    have hv : dictSet key tbl v = tbl ++ [v] := by
+      unfold dictSet
+      rw [if_neg]
+      intro hany
+      rw [List.any_eq_true] at hany
+      obtain ⟨x, hx, he⟩ := hany
+      rw [List.map_append, List.nodup_append] at h
+      exact h.2.2 (key x) (List.mem_map.2 ⟨x, hx, rfl⟩) (key v) (List.mem_map.2 ⟨v, List.mem_cons_self, rfl⟩)
+        (by simpa using he)
+    rw [List.foldl_cons, hv, k12_foldl_dictSet_of_nodup key vs (tbl ++ [v]) (by simpa using h)]
+    simp
+
+theorem k12_evs_ids {src : List (String × FuncDef)} {evs : List Function} (h : List.Forall₂ k12_EvMatch src evs) :
+    evs.map (·.id) = src.map (·.1) := by
+  induction h with
+  | nil => rfl
+  | cons hq _ ih => rw [List.map_cons, List.map_cons, ih, hq.1]
+
+/-- if no two visited function definitions get the same id, every parameter and every result of the tables is
+    listed by a function of the table -/
+theorem k12_analyze_parts {env : AEnv} {root : GNode} {mods : List SrcModule} {r : AnaResult} {w : List String}
+    (h : analyze env root mods = .ok (r, w)) (hu : ((k12_srcFuncs mods).map (·.1)).Nodup) :
+    (∀ p ∈ r.parameters, ∃ f ∈ r.functions, p ∈ f.params) ∧ (∀ x ∈ r.results, ∃ f ∈ r.functions, x ∈ f.results) := by
+  obtain ⟨evs, _, hsteps, hm, _⟩ := k12_analyze_steps h
+  have hfun : r.functions = evs := by
+    rw [k12_Steps_functions hsteps]
+    have := k12_foldl_dictSet_of_nodup (fun (f : Function) => f.id) evs [] (by rw [List.nil_append, k12_evs_ids hm]; exact hu)
+    rw [List.nil_append] at this
+    exact this
+  have hp := k12_Steps_parts hsteps
+  rw [hfun]
+  refine ⟨fun p hp' => ?_, fun x hx => ?_⟩
+  · rcases hp.1 p hp' with h0 | h0
+    · exact absurd h0 List.not_mem_nil
+    · exact h0
+  · rcases hp.2 x hx with h0 | h0
+    · exact absurd h0 List.not_mem_nil
+    · exact h0
+
+/-! ### attributes come from the stored classes -/
+
+theorem k12_Step_classes {a : AnaResult} {s : List Frame} {e : List Function} {cs : List Class} {a' : AnaResult}
+    {s' : List Frame} (h : k12_Step a s e cs a' s') : a'.classes = cs.foldl (dictSet (·.id)) a.classes := by
+  cases h <;> rfl
+
+theorem k12_Steps_classes {a : AnaResult} {s : List Frame} {e : List Function} {cs : List Class} {a' : AnaResult}
+    {s' : List Frame} (h : k12_Steps a s e cs a' s') : a'.classes = cs.foldl (dictSet (·.id)) a.classes := by
+  induction h with
+  | refl => rfl
+  | cons h1 _ _ hc ih => rw [ih, k12_Step_classes h1, hc, List.foldl_append]
+
+/-- the attribute is listed by one of the classes `P` (the classes stored so far) or by a class that is still open -/
+def k12_Listed (P : List Class) (stk : List Frame) (x : Attribute) : Prop :=
+  (∃ c ∈ P, x ∈ c.attributes) ∨ (∃ c, Frame.cls c ∈ stk ∧ x ∈ c.attributes)
+
+theorem k12_Listed.of_sub {P P' : List Class} {s s' : List Frame} {x : Attribute} (h : k12_Listed P s x)
+    (hP : ∀ c ∈ P, c ∈ P') (hs : ∀ c, Frame.cls c ∈ s → x ∈ c.attributes → k12_Listed P' s' x) : k12_Listed P' s' x := by
+  rcases h with ⟨c, hc, hx⟩ | ⟨c, hc, hx⟩
+  · exact Or.inl ⟨c, hP c hc, hx⟩
+  · exact hs c hc hx
+
+theorem k12_Listed_step {a : AnaResult} {s : List Frame} {e : List Function} {cs : List Class} {a' : AnaResult}
+    {s' : List Frame} (h : k12_Step a s e cs a' s') {P P' : List Class} (hP : ∀ c ∈ P, c ∈ P') (hcs : ∀ c ∈ cs, c ∈ P')
+    {x : Attribute} (hx : k12_Listed P s x) : k12_Listed P' s' x := by
+  cases h with
+  | reexp => exact hx.of_sub hP (fun c hc hm => Or.inr ⟨c, hc, hm⟩)
+  | pushModule _ m _ _ _ => exact hx.of_sub hP (fun c hc hm => Or.inr ⟨c, List.mem_cons_of_mem _ hc, hm⟩)
+  | popModule m rest =>
+    refine hx.of_sub hP (fun c hc hm => Or.inr ⟨c, ?_, hm⟩)
+    rcases List.mem_cons.1 hc with hc | hc
+    · exact absurd hc (by simp)
+    · exact hc
+  | pushFn _ fn _ _ => exact hx.of_sub hP (fun c hc hm => Or.inr ⟨c, List.mem_cons_of_mem _ hc, hm⟩)
+  | popFn f parent up =>
+    refine hx.of_sub hP (fun c hc hm => Or.inr ?_)
+    rcases List.mem_cons.1 hc with hc | hc
+    · exact absurd hc (by simp)
+    rcases List.mem_cons.1 hc with hc | hc
+    · subst hc
+      refine ⟨if f.name == "__init__" then { c with ctor := some f } else { c with methods := c.methods ++ [f] },
+        ?_, ?_⟩
+      · refine List.mem_cons.2 (Or.inl ?_)
+        show _ = (if f.name == "__init__" then _ else _)
+        split <;> rfl
+      · split <;> exact hm
+    · exact ⟨c, List.mem_cons_of_mem _ hc, hm⟩
+  | pushCls _ c _ _ => exact hx.of_sub hP (fun c hc hm => Or.inr ⟨c, List.mem_cons_of_mem _ hc, hm⟩)
+  | popClsM c m up =>
+    refine hx.of_sub hP (fun y hy hm => ?_)
+    rcases List.mem_cons.1 hy with hy | hy
+    · simp only [Frame.cls.injEq] at hy
+      subst hy
+      exact Or.inl ⟨y, hcs y (List.mem_singleton.2 rfl), hm⟩
+    rcases List.mem_cons.1 hy with hy | hy
+    · exact absurd hy (by simp)
+    · exact Or.inr ⟨y, List.mem_cons_of_mem _ hy, hm⟩
+  | popClsC c p up =>
+    refine hx.of_sub hP (fun y hy hm => ?_)
+    rcases List.mem_cons.1 hy with hy | hy
+    · simp only [Frame.cls.injEq] at hy
+      subst hy
+      exact Or.inl ⟨y, hcs y (List.mem_singleton.2 rfl), hm⟩
+    rcases List.mem_cons.1 hy with hy | hy
+    · simp only [Frame.cls.injEq] at hy
+      subst hy
+      exact Or.inr ⟨_, List.mem_cons_self, hm⟩
+    · exact Or.inr ⟨y, List.mem_cons_of_mem _ hy, hm⟩
+  | pushEnum _ en _ _ => exact hx.of_sub hP (fun c hc hm => Or.inr ⟨c, List.mem_cons_of_mem _ hc, hm⟩)
+  | popEnumM en m up =>
+    refine hx.of_sub hP (fun c hc hm => Or.inr ⟨c, ?_, hm⟩)
+    rcases List.mem_cons.1 hc with hc | hc
+    · exact absurd hc (by simp)
+    rcases List.mem_cons.1 hc with hc | hc
+    · exact absurd hc (by simp)
+    · exact List.mem_cons_of_mem _ hc
+  | dropEnum en rest =>
+    refine hx.of_sub hP (fun c hc hm => Or.inr ⟨c, ?_, hm⟩)
+    rcases List.mem_cons.1 hc with hc | hc
+    · exact absurd hc (by simp)
+    · exact hc
+  | addAttrF f c up att _ =>
+    refine hx.of_sub hP (fun y hy hm => Or.inr ?_)
+    rcases List.mem_cons.1 hy with hy | hy
+    · exact absurd hy (by simp)
+    rcases List.mem_cons.1 hy with hy | hy
+    · simp only [Frame.cls.injEq] at hy
+      subst hy
+      exact ⟨_, List.mem_cons_of_mem _ List.mem_cons_self, List.mem_append_left _ hm⟩
+    · exact ⟨y, List.mem_cons_of_mem _ (List.mem_cons_of_mem _ hy), hm⟩
+  | addAttrC c up att _ =>
+    refine hx.of_sub hP (fun y hy hm => Or.inr ?_)
+    rcases List.mem_cons.1 hy with hy | hy
+    · simp only [Frame.cls.injEq] at hy
+      subst hy
+      exact ⟨_, List.mem_cons_self, List.mem_append_left _ hm⟩
+    · exact ⟨y, List.mem_cons_of_mem _ hy, hm⟩
+  | addInst en up inst _ =>
+    refine hx.of_sub hP (fun c hc hm => Or.inr ⟨c, ?_, hm⟩)
+    rcases List.mem_cons.1 hc with hc | hc
+    · exact absurd hc (by simp)
+    · exact List.mem_cons_of_mem _ hc
+
+theorem k12_ListedInv_step {a : AnaResult} {s : List Frame} {e : List Function} {cs : List Class} {a' : AnaResult}
+    {s' : List Frame} (h : k12_Step a s e cs a' s') {P : List Class} (hi : ∀ x ∈ a.attributes, k12_Listed P s x) :
+    ∀ x ∈ a'.attributes, k12_Listed (P ++ cs) s' x := by
+  have hold : ∀ x, k12_Listed P s x → k12_Listed (P ++ cs) s' x :=
+    fun x hx => k12_Listed_step h (fun c hc => List.mem_append_left _ hc) (fun c hc => List.mem_append_right _ hc) hx
+  cases h with
+  | addAttrF f c up att _ =>
+    intro x hx
+    rcases k12_mem_dictSet _ hx with rfl | hx
+    · exact Or.inr ⟨_, List.mem_cons_of_mem _ List.mem_cons_self, List.mem_append_right _ (List.mem_singleton.2 rfl)⟩
+    · exact hold x (hi x hx)
+  | addAttrC c up att _ =>
+    intro x hx
+    rcases k12_mem_dictSet _ hx with rfl | hx
+    · exact Or.inr ⟨_, List.mem_cons_self, List.mem_append_right _ (List.mem_singleton.2 rfl)⟩
+    · exact hold x (hi x hx)
+  | _ => exact fun x hx => hold x (hi x hx)
+
+theorem k12_ListedInv_steps {a : AnaResult} {s : List Frame} {e : List Function} {cs : List Class} {a' : AnaResult}
+    {s' : List Frame} (h : k12_Steps a s e cs a' s') : ∀ {P : List Class}, (∀ x ∈ a.attributes, k12_Listed P s x) →
+    ∀ x ∈ a'.attributes, k12_Listed (P ++ cs) s' x := by
+  induction h with
+  | refl => intro P hi; rw [List.append_nil]; exact hi
+  | cons h1 _ _ hc ih =>
+    intro P hi
+    have := ih (k12_ListedInv_step h1 hi)
+    rw [hc, ← List.append_assoc]
+    exact this
+
+/-- if no two visited class definitions get the same id, every attribute of the table is listed by a class of the table -/
+theorem k12_analyze_attrs {env : AEnv} {root : GNode} {mods : List SrcModule} {r : AnaResult} {w : List String}
+    (h : analyze env root mods = .ok (r, w)) (hu : (k12_srcClasses mods).Nodup) :
+    ∀ x ∈ r.attributes, ∃ c ∈ r.classes, x ∈ c.attributes := by
+  obtain ⟨evs, cs, hsteps, _, hcs⟩ := k12_analyze_steps h
+  have hcls : r.classes = cs := by
+    rw [k12_Steps_classes hsteps]
+    have := k12_foldl_dictSet_of_nodup (fun (c : Class) => c.id) cs [] (by rw [List.nil_append, hcs]; exact hu)
+    rw [List.nil_append] at this
+    exact this
+  intro x hx
+  have := k12_ListedInv_steps hsteps (P := []) (fun _ h0 => absurd h0 List.not_mem_nil) x hx
+  rw [List.nil_append] at this
+  rw [hcls]
+  rcases this with h0 | ⟨c, hc, _⟩
+  · exact h0
+  · exact absurd hc List.not_mem_nil
 
 /-- the last definition with id `id` in the walk order -/
 def k12_lastDef (id : String) (src : List (String × FuncDef)) : Option FuncDef :=
@@ -2196,7 +2704,7 @@ theorem k12_lastDef_recorded {src : List (String × FuncDef)} {evs : List Functi
 theorem k12_analyze_lastDef {env : AEnv} {root : GNode} {mods : List SrcModule} {r : AnaResult} {w : List String}
     (h : analyze env root mods = .ok (r, w)) {id : String} {f : FuncDef} (hl : k12_lastDef id (k12_srcFuncs mods) = some f) :
     ∃ fn ∈ r.functions, fn.id = id ∧ k12_FnMatch f fn := by
-  obtain ⟨evs, hsteps, hm⟩ := k12_analyze_steps h
+  obtain ⟨evs, _, hsteps, hm, _⟩ := k12_analyze_steps h
   rw [k12_Steps_functions hsteps]
   exact k12_lastDef_recorded hm hl
 
@@ -2274,28 +2782,5 @@ theorem k12_method_mem_srcFuncs {mods : List SrcModule} {m : SrcModule} {name fu
     rw [if_neg (by decide), k12_joinWith3]
     exact List.mem_singleton.2 rfl
 
-
-/-! ### `str.replace` when the pattern does not occur -/
-
-theorem k12_splitOnStrAux_noop (sep : List Char) : ∀ (l : List Char), isInfixOfL sep l = false → sep ≠ [] →
-    splitOnStrAux sep 0 l = [l]
-  | [], _, _ => by unfold splitOnStrAux; rfl
-  | c :: cs, h, hs => by
-    unfold isInfixOfL at h
-    simp only [Bool.or_eq_false_iff] at h
-    have ih := k12_splitOnStrAux_noop sep cs h.2 hs
-    unfold splitOnStrAux
-    rw [if_neg (by rw [h.1]; simp), ih]
-
-theorem k12_pyReplace_noop (s a b : String) (ha : a.toList ≠ []) (h : pyIn a s = false) : pyReplace s a b = s := by
-  unfold pyReplace pySplitStr
-  have : a.isEmpty = false := by
-    cases hh : a.isEmpty
-    · rfl
-    · exact absurd (by rw [String.isEmpty_iff.mp hh]; rfl) ha
-  rw [this]
-  simp only [Bool.false_eq_true, if_false]
-  rw [k12_splitOnStrAux_noop _ _ h ha]
-  simp only [List.map_cons, List.map_nil, joinWith, String.ofList_toList]
 
 end StubGen
